@@ -1245,3 +1245,1382 @@ Section Counters.
     inversion E; subst. cbn [vn_an] in H. now rewrite (proj1 (walkv_counters r r') _ _ _ _ _ Ew H).
   Qed.
 End Counters.
+
+(* ================================================================== COBOL-shaped schemas ($ref only to an
+   alternative of an earlier oneOf property of the same object, distinct anchors): coherence of the anchors,
+   whole-versus-part for items with $ref, containment of $ref children, footprint inside the location *)
+
+
+Definition keysof (an : wanchors) : list key := map fst an.
+
+Lemma keq_eq : forall a b, key_eqb a b = true -> a = b.
+Proof. intros [i|i] [j|j] E; cbn in E; try discriminate; apply N.eqb_eq in E; now subst. Qed.
+Lemma keq_refl : forall a, key_eqb a a = true.
+Proof. intros [i|i]; cbn; apply N.eqb_refl. Qed.
+
+Lemma memk_In : forall k l, memk k l = true <-> In k l.
+Proof.
+  intros k l. unfold memk. rewrite existsb_exists. split.
+  - intros [x [H1 H2]]. apply keq_eq in H2. now subst.
+  - intros H. exists k. split; [exact H|apply keq_refl].
+Qed.
+
+Lemma nodupk_NoDup : forall l, nodupk l = true -> NoDup l.
+Proof.
+  induction l as [|k t IH]; intros H; [constructor|]. cbn [nodupk] in H. apply andb_prop in H. destruct H as [H1 H2].
+  constructor; [|now apply IH]. intros Hin. apply memk_In in Hin. rewrite Hin in H1. discriminate.
+Qed.
+
+Lemma NoDup_app_l' : forall {T} (a b : list T), NoDup (a ++ b) -> NoDup a.
+Proof. intros T a b. induction a as [|x a IH]; intros H; [constructor|]. inversion H; subst. constructor; [|auto]. intros Hin. apply H2. apply in_or_app. now left. Qed.
+Lemma NoDup_app_r' : forall {T} (a b : list T), NoDup (a ++ b) -> NoDup b.
+Proof. intros T a b. induction a as [|x a IH]; intros H; [exact H|]. inversion H; subst. auto. Qed.
+Lemma NoDup_app_disj' : forall {T} (a b : list T) x, NoDup (a ++ b) -> In x a -> In x b -> False.
+Proof.
+  intros T a b x. induction a as [|y a IH]; intros H Ha Hb; [destruct Ha|]. inversion H; subst.
+  destruct Ha as [->|Ha]; [apply H2; apply in_or_app; now right|auto].
+Qed.
+
+(* ---- coherent anchors: a name has one location ---- *)
+Definition coherent (an : wanchors) : Prop := forall k l1 l2, In (k, l1) an -> In (k, l2) an -> l1 = l2.
+
+Lemma coherent_tail : forall x an, coherent (x :: an) -> coherent an.
+Proof. intros x an H k l1 l2 H1 H2. apply (H k); now right. Qed.
+
+Lemma wlookup_coherent : forall an k l, coherent an -> In (k, l) an -> wlookup k an = Some l.
+Proof.
+  induction an as [|[k' l'] an IH]; intros k l Hc Hin; [destruct Hin|]. cbn [wlookup].
+  destruct (key_eqb k k') eqn:E.
+  - apply keq_eq in E. subst k'. f_equal. apply (Hc k); [now left|exact Hin].
+  - destruct Hin as [H|H]; [inversion H; subst; now rewrite keq_refl in E|]. apply IH; [eapply coherent_tail; eauto|exact H].
+Qed.
+
+Lemma coherent_incl : forall a b, (forall x, In x a -> In x b) -> coherent b -> coherent a.
+Proof. intros a b Hi Hc k l1 l2 H1 H2. apply (Hc k); auto. Qed.
+
+Lemma coherent_app : forall a b, coherent a -> coherent b ->
+  (forall k, In k (keysof a) -> In k (keysof b) -> False) -> coherent (a ++ b).
+Proof.
+  intros a b Ha Hb Hd k l1 l2 H1 H2. apply in_app_or in H1. apply in_app_or in H2.
+  destruct H1 as [H1|H1], H2 as [H2|H2].
+  - now apply (Ha k).
+  - exfalso. apply (Hd k); unfold keysof; [apply (in_map fst _ _ H1)|apply (in_map fst _ _ H2)].
+  - exfalso. apply (Hd k); unfold keysof; [apply (in_map fst _ _ H2)|apply (in_map fst _ _ H1)].
+  - now apply (Hb k).
+Qed.
+
+Lemma coherent_wreg : forall a l an, coherent an -> (forall k, a = Some k -> ~ In k (keysof an) \/ (forall l', In (k, l') an -> l' = l)) ->
+  coherent (wreg a l an).
+Proof.
+  intros a l an Hc Ha. destruct a as [k|]; [|exact Hc]. cbn [wreg]. specialize (Ha k eq_refl).
+  intros k0 l1 l2 [H1|H1] [H2|H2].
+  - inversion H1; inversion H2; now subst.
+  - inversion H1; subst. destruct Ha as [Ha|Ha]; [exfalso; apply Ha; apply (in_map fst _ _ H2)|symmetry; now apply Ha].
+  - inversion H2; subst. destruct Ha as [Ha|Ha]; [exfalso; apply Ha; apply (in_map fst _ _ H1)|now apply Ha].
+  - now apply (Hc k0).
+Qed.
+
+Lemma keysof_wreg : forall a l an, keysof (wreg a l an) = okey a ++ keysof an.
+Proof. intros [k|] l an; reflexivity. Qed.
+Lemma keysof_app : forall a b, keysof (a ++ b) = keysof a ++ keysof b.
+Proof. intros. unfold keysof. apply map_app. Qed.
+
+Section L1c.
+  Variable B : Type.
+  Variable dcount : list B -> nat.
+  Variable r : list B.
+
+  (* what a walk registers: under the schema's own anchors only, and coherently when those are distinct *)
+  Lemma walkv_keys :
+    (forall s st an l an', walkv dcount r s st an = Ok (l, an') ->
+       exists new, an' = new ++ an /\ incl (keysof new) (jkeys s) /\ (NoDup (jkeys s) -> coherent new)
+                   /\ (forall a, js_anchor s = Some a -> In (a, l) new))
+    /\ (forall ps off an pls off' an', walkv_props dcount r ps off an = Ok (pls, off', an') ->
+       exists new, an' = new ++ an /\ incl (keysof new) (jkeys_props ps) /\ (NoDup (jkeys_props ps) -> coherent new))
+    /\ (forall alts st an als an', walkv_alts dcount r alts st an = Ok (als, an') ->
+       exists new, an' = new ++ an /\ incl (keysof new) (jkeys_alts alts) /\ (NoDup (jkeys_alts alts) -> coherent new)).
+  Proof.
+    assert (Hreg : forall a l new (ks : list key), incl (keysof new) ks -> (NoDup (okey a ++ ks) -> coherent new) ->
+              incl (keysof (wreg a l new)) (okey a ++ ks) /\ (NoDup (okey a ++ ks) -> coherent (wreg a l new))
+              /\ (forall a0, a = Some a0 -> In (a0, l) (wreg a l new))).
+    { intros a l new ks Hi Hc. split; [|split].
+      - rewrite keysof_wreg. intros k Hk. apply in_app_or in Hk. apply in_or_app. destruct Hk; [now left|right; auto].
+      - intros Hnd. apply coherent_wreg; [auto|]. intros k ->. left. cbn [okey app] in Hnd. inversion Hnd; subst. intros Hin. apply H1. auto.
+      - intros a0 ->. now left. }
+    apply js_props_alts_ind.
+    - intros a sz st an l an' E. rewrite walkv_atom in E. inversion E; subst.
+      exists (wreg a (WAtom a st sz) []). split; [now rewrite <- wreg_app|].
+      cbn [jkeys js_anchor]. rewrite app_nil_r.
+      destruct (Hreg a (WAtom a st sz) [] [] (fun k H => H) (fun _ k l1 l2 (H : In _ []) => match H with end)) as [H1 [H2 H3]].
+      rewrite app_nil_r in *. repeat split; auto.
+    - intros a n its IH st an l an' E. rewrite walkv_arr in E.
+      destruct (walkv dcount r its st an) as [[sub an1]|e] eqn:Es; [|discriminate]. inversion E; subst.
+      destruct (IH _ _ _ _ Es) as [new [Hn [Hi [Hc _]]]]. subst an1.
+      eexists. split; [now rewrite wreg_app|]. cbn [jkeys js_anchor].
+      destruct (Hreg a (WArr st (wsize sub * n) (wsize sub) n sub its) new (jkeys its) Hi) as [H1 [H2 H3]].
+      { intros Hnd. apply Hc. now apply NoDup_app_r' in Hnd. }
+      repeat split; auto.
+    - intros a c its IH st an l an' E. rewrite walkv_odo in E.
+      destruct (wlookup (KName c) an) as [[ca cst csz| | | |]|]; try discriminate.
+      destruct (walkv dcount r its st an) as [[sub an1]|e] eqn:Es; [|discriminate]. inversion E; subst.
+      destruct (IH _ _ _ _ Es) as [new [Hn [Hi [Hc _]]]]. subst an1.
+      eexists. split; [now rewrite wreg_app|]. cbn [jkeys js_anchor].
+      match goal with |- context [wreg a ?L new] => destruct (Hreg a L new (jkeys its) Hi) as [H1 [H2 H3]] end.
+      { intros Hnd. apply Hc. now apply NoDup_app_r' in Hnd. }
+      repeat split; auto.
+    - intros a ps IH st an l an' E. rewrite walkv_obj in E.
+      destruct (walkv_props dcount r ps st an) as [[[pls off] an1]|e] eqn:Es; [|discriminate]. inversion E; subst.
+      destruct (IH _ _ _ _ _ Es) as [new [Hn [Hi Hc]]]. subst an1.
+      eexists. split; [now rewrite wreg_app|]. cbn [jkeys js_anchor].
+      destruct (Hreg a (WObj st (off - st) pls) new (jkeys_props ps) Hi) as [H1 [H2 H3]].
+      { intros Hnd. apply Hc. now apply NoDup_app_r' in Hnd. }
+      repeat split; auto.
+    - intros a alts IH st an l an' E. destruct alts as [|s0 rest]; [discriminate|]. rewrite walkv_one in E.
+      destruct (walkv_alts dcount r (ACons s0 rest) st an) as [[als an1]|e] eqn:Es; [|discriminate]. inversion E; subst.
+      destruct (IH _ _ _ _ Es) as [new [Hn [Hi Hc]]]. subst an1.
+      eexists. split; [now rewrite wreg_app|]. cbn [jkeys js_anchor].
+      destruct (Hreg a (WOne st (wmax_size als) als) new (jkeys_alts (ACons s0 rest)) Hi) as [H1 [H2 H3]].
+      { intros Hnd. apply Hc. now apply NoDup_app_r' in Hnd. }
+      repeat split; auto.
+    - intros t st an l an' E. rewrite walkv_ref in E. inversion E; subst. exists []. repeat split.
+      + intros k [].
+      + intros _ k l1 l2 [].
+      + intros a H. discriminate.
+    - intros off an pls off' an' E. rewrite walkv_props_nil in E. inversion E; subst. exists []. repeat split.
+      + intros k [].
+      + intros _ k l1 l2 [].
+    - intros k s IHs rest IHr off an pls off' an' E. rewrite walkv_props_cons in E.
+      destruct (walkv dcount r s off an) as [[pl an1]|e] eqn:Es; [|discriminate].
+      destruct (walkv_props dcount r rest (off + wsize pl) (wreg (js_anchor s) pl an1)) as [[[rl off1] an2]|e] eqn:Er; [|discriminate].
+      inversion E; subst. destruct (IHs _ _ _ _ Es) as [n1 [H1 [Hi1 [Hc1 Ha1]]]]. destruct (IHr _ _ _ _ _ Er) as [n2 [H2 [Hi2 Hc2]]]. subst.
+      exists (n2 ++ wreg (js_anchor s) pl n1). split; [now rewrite <- app_assoc, wreg_app|]. cbn [jkeys_props]. split.
+      + rewrite keysof_app, keysof_wreg. intros x Hx. apply in_or_app. apply in_app_or in Hx. destruct Hx as [Hx|Hx]; [right; auto|left].
+        apply in_app_or in Hx. destruct Hx as [Hx|Hx]; [|auto].
+        destruct s; cbn [js_anchor jkeys okey] in *; try (apply in_or_app; now left).
+      + intros Hnd. apply coherent_app.
+        * apply Hc2. now apply NoDup_app_r' in Hnd.
+        * apply coherent_wreg; [apply Hc1; now apply NoDup_app_l' in Hnd|]. intros k0 Hk0. right. intros l' Hl'.
+          apply (Hc1 (NoDup_app_l' _ _ Hnd) k0); [exact Hl'|now apply Ha1].
+        * intros k0 Hk2 Hk1. apply (NoDup_app_disj' _ _ k0 Hnd); [|auto].
+          rewrite keysof_wreg in Hk1. apply in_app_or in Hk1. destruct Hk1 as [Hk1|Hk1]; [|auto].
+          destruct s; cbn [js_anchor jkeys okey] in *; try (apply in_or_app; now left).
+    - intros st an als an' E. rewrite walkv_alts_nil in E. inversion E; subst. exists []. repeat split.
+      + intros k [].
+      + intros _ k l1 l2 [].
+    - intros s IHs rest IHr st an als an' E. rewrite walkv_alts_cons in E.
+      destruct (walkv dcount r s st an) as [[l an1]|e] eqn:Es; [|discriminate].
+      destruct (walkv_alts dcount r rest st an1) as [[ls an2]|e] eqn:Er; [|discriminate].
+      inversion E; subst. destruct (IHs _ _ _ _ Es) as [n1 [H1 [Hi1 [Hc1 _]]]]. destruct (IHr _ _ _ _ Er) as [n2 [H2 [Hi2 Hc2]]]. subst.
+      exists (n2 ++ n1). split; [now rewrite <- app_assoc|]. cbn [jkeys_alts]. split.
+      + rewrite keysof_app. intros x Hx. apply in_or_app. apply in_app_or in Hx. destruct Hx; [right|left]; auto.
+      + intros Hnd. apply coherent_app; [apply Hc2; now apply NoDup_app_r' in Hnd|apply Hc1; now apply NoDup_app_l' in Hnd|].
+        intros k0 Hk2 Hk1. apply (NoDup_app_disj' _ _ k0 Hnd); auto.
+  Qed.
+End L1c.
+
+
+(* ---- ranked anchors: a registered location only refers to names registered before it ---- *)
+Fixpoint rankedF (an : wanchors) : Prop :=
+  match an with
+  | [] => True
+  | (k, l) :: suf => (forall st t, sub_ref l st t -> In t (keysof suf)) /\ rankedF suf
+  end.
+
+Lemma rankedF_app : forall a b, rankedF a -> rankedF b -> rankedF (a ++ b).
+Proof.
+  induction a as [|[k l] a IH]; intros b Ha Hb; [exact Hb|]. cbn [app rankedF] in *. destruct Ha as [H1 H2].
+  split; [|auto]. intros st t Hs. rewrite keysof_app. apply in_or_app. left. eauto.
+Qed.
+
+Lemma rankedF_wreg : forall a l new, (forall st t, sub_ref l st t -> In t (keysof new)) -> rankedF new -> rankedF (wreg a l new).
+Proof. intros [k|] l new H1 H2; [split; assumption|exact H2]. Qed.
+
+Lemma rankedF_skip : forall pre suf, rankedF (pre ++ suf) -> rankedF suf.
+Proof. induction pre as [|[k l] pre IH]; intros suf H; [exact H|]. cbn [app rankedF] in H. apply IH. tauto. Qed.
+
+Lemma alt_anchors_jkeys : forall alts, incl (alt_anchors alts) (jkeys_alts alts).
+Proof.
+  induction alts as [|s r IH]; [intros k []|]. cbn [alt_anchors jkeys_alts]. intros k Hk. apply in_app_or in Hk.
+  apply in_or_app. destruct Hk as [Hk|Hk]; [left|right; auto]. destruct s; cbn [jkeys js_anchor] in *; apply in_or_app; now left.
+Qed.
+
+Section L1.
+  Variable B : Type.
+  Variable dcount : list B -> nat.
+  Variable r : list B.
+
+  Lemma walkv_closed :
+    (forall s, redef_ok s = true -> forall st an l an', walkv dcount r s st an = Ok (l, an') ->
+       exists new, an' = new ++ an /\ incl (jkeys s) (keysof new)
+                   /\ (forall st' t, sub_ref l st' t -> In t (keysof new)) /\ rankedF new)
+    /\ (forall ps seen, redef_props seen ps = true -> forall off an pls off' an', walkv_props dcount r ps off an = Ok (pls, off', an') ->
+       exists new, an' = new ++ an /\ incl (jkeys_props ps) (keysof new)
+                   /\ (forall st' t, sub_ref_props pls st' t -> In t (keysof new) \/ In t seen) /\ rankedF new)
+    /\ (forall alts, redef_alts alts = true -> forall st an als an', walkv_alts dcount r alts st an = Ok (als, an') ->
+       exists new, an' = new ++ an /\ incl (jkeys_alts alts) (keysof new)
+                   /\ (forall st' t, sub_ref_alts als st' t -> In t (keysof new)) /\ rankedF new).
+  Proof.
+    assert (Hreg : forall a l new (ks : list key), incl ks (keysof new) ->
+              (forall st t, sub_ref l st t -> In t (keysof new)) -> rankedF new ->
+              incl (okey a ++ ks) (keysof (wreg a l new))
+              /\ (forall st t, sub_ref l st t -> In t (keysof (wreg a l new))) /\ rankedF (wreg a l new)).
+    { intros a l new ks Hi Hs Hr. rewrite keysof_wreg. split; [|split].
+      - intros k Hk. apply in_app_or in Hk. apply in_or_app. destruct Hk; [now left|right; auto].
+      - intros st t H. apply in_or_app. right. eauto.
+      - now apply rankedF_wreg. }
+    apply js_props_alts_ind.
+    - intros a sz _ st an l an' E. rewrite walkv_atom in E. inversion E; subst.
+      exists (wreg a (WAtom a st sz) []). split; [now rewrite <- wreg_app|]. cbn [jkeys js_anchor].
+      apply (Hreg a (WAtom a st sz) [] []); [intros k []|intros st' t []|exact I].
+    - intros a n its IH Hok st an l an' E. cbn [redef_ok redef_props redef_alts] in Hok. rewrite walkv_arr in E.
+      destruct (walkv dcount r its st an) as [[sub an1]|e] eqn:Es; [|discriminate]. inversion E; subst.
+      destruct (IH Hok _ _ _ _ Es) as [new [Hn [Hi [Hs Hr]]]]. subst an1.
+      eexists. split; [now rewrite wreg_app|]. cbn [jkeys js_anchor]. apply Hreg; auto.
+    - intros a c its IH Hok st an l an' E. cbn [redef_ok redef_props redef_alts] in Hok. rewrite walkv_odo in E.
+      destruct (wlookup (KName c) an) as [[ca cst csz| | | |]|]; try discriminate.
+      destruct (walkv dcount r its st an) as [[sub an1]|e] eqn:Es; [|discriminate]. inversion E; subst.
+      destruct (IH Hok _ _ _ _ Es) as [new [Hn [Hi [Hs Hr]]]]. subst an1.
+      eexists. split; [now rewrite wreg_app|]. cbn [jkeys js_anchor]. apply Hreg; auto.
+    - intros a ps IH Hok st an l an' E. cbn [redef_ok redef_props redef_alts] in Hok. rewrite walkv_obj in E.
+      destruct (walkv_props dcount r ps st an) as [[[pls off] an1]|e] eqn:Es; [|discriminate]. inversion E; subst.
+      destruct (IH [] Hok _ _ _ _ _ Es) as [new [Hn [Hi [Hs Hr]]]]. subst an1.
+      eexists. split; [now rewrite wreg_app|]. cbn [jkeys js_anchor]. apply Hreg; auto.
+      intros st' t H. cbn [sub_ref] in H. destruct (Hs _ _ H) as [H1|[]]. exact H1.
+    - intros a alts IH Hok st an l an' E. cbn [redef_ok redef_props redef_alts] in Hok.
+      destruct alts as [|s0 rest]; [discriminate|]. rewrite walkv_one in E.
+      destruct (walkv_alts dcount r (ACons s0 rest) st an) as [[als an1]|e] eqn:Es; [|discriminate]. inversion E; subst.
+      destruct (IH Hok _ _ _ _ Es) as [new [Hn [Hi [Hs Hr]]]]. subst an1.
+      eexists. split; [now rewrite wreg_app|]. cbn [jkeys js_anchor]. apply Hreg; auto.
+    - intros t Hok. discriminate.
+    - intros seen _ off an pls off' an' E. rewrite walkv_props_nil in E. inversion E; subst. exists []. repeat split.
+      + intros k [].
+      + intros st' t [].
+    - intros k s IHs rest IHr seen Hok off an pls off' an' E. rewrite walkv_props_cons in E.
+      destruct (walkv dcount r s off an) as [[pl an1]|e] eqn:Es; [|discriminate].
+      destruct (walkv_props dcount r rest (off + wsize pl) (wreg (js_anchor s) pl an1)) as [[[rl off1] an2]|e] eqn:Er; [|discriminate].
+      inversion E; subst. clear E.
+      assert (Hgen : forall seen2, redef_ok s = true -> (forall t, In t seen2 -> In t (jkeys s) \/ In t seen) ->
+                redef_props seen2 rest = true ->
+                exists new, an' = new ++ an /\ incl (jkeys_props (PCons k s rest)) (keysof new)
+                  /\ (forall st' t, sub_ref_props (WPCons k pl rl) st' t -> In t (keysof new) \/ In t seen) /\ rankedF new).
+      { intros seen2 Hs2 Hsub Hr2.
+        destruct (IHs Hs2 _ _ _ _ Es) as [n1 [H1 [Hi1 [Hs1 Hr1]]]]. subst an1.
+        destruct (IHr seen2 Hr2 _ _ _ _ _ Er) as [n2 [H2 [Hi2 [Hsr Hrr]]]]. subst an'.
+        destruct (Hreg (js_anchor s) pl n1 (jkeys s) Hi1 Hs1 Hr1) as [G1 [G2 G3]].
+        exists (n2 ++ wreg (js_anchor s) pl n1). split; [now rewrite <- app_assoc, wreg_app|]. split; [|split].
+        - cbn [jkeys_props]. rewrite keysof_app. intros x Hx. apply in_or_app. apply in_app_or in Hx.
+          destruct Hx as [Hx|Hx]; [right; apply G1; apply in_or_app; now right|left; auto].
+        - intros st' t H. cbn [sub_ref_props] in H. rewrite keysof_app. destruct H as [H|H].
+          + left. apply in_or_app. right. eauto.
+          + destruct (Hsr _ _ H) as [H'|H']; [left; apply in_or_app; now left|].
+            destruct (Hsub _ H') as [H''|H'']; [left; apply in_or_app; right; apply G1; apply in_or_app; now right|now right].
+        - apply rankedF_app; assumption. }
+      destruct s as [a sz|a n its|a c its|a ps|a alts|t]; cbn [redef_ok redef_props redef_alts] in Hok.
+      + apply andb_prop in Hok. destruct Hok as [O1 O2]. apply (Hgen seen); auto.
+      + apply andb_prop in Hok. destruct Hok as [O1 O2]. apply (Hgen seen); auto.
+      + apply andb_prop in Hok. destruct Hok as [O1 O2]. apply (Hgen seen); auto.
+      + apply andb_prop in Hok. destruct Hok as [O1 O2]. apply (Hgen seen); auto.
+      + apply andb_prop in Hok. destruct Hok as [O1 O2]. apply (Hgen (alt_anchors alts ++ seen)); auto.
+        intros t Ht. apply in_app_or in Ht. destruct Ht as [Ht|Ht]; [left|now right].
+        cbn [jkeys]. apply in_or_app. right. now apply alt_anchors_jkeys.
+      + apply andb_prop in Hok. destruct Hok as [O1 O2]. apply memk_In in O1.
+        rewrite walkv_ref in Es. inversion Es; subst. cbn [js_anchor wreg] in Er.
+        destruct (IHr seen O2 _ _ _ _ _ Er) as [n2 [H2 [Hi2 [Hsr Hrr]]]]. subst an'.
+        exists n2. split; [reflexivity|]. split; [|split; [|exact Hrr]].
+        * cbn [jkeys_props jkeys js_anchor okey app]. exact Hi2.
+        * intros st' t0 H. cbn [sub_ref_props sub_ref] in H. destruct H as [[_ <-]|H]; [now right|exact (Hsr _ _ H)].
+    - intros _ st an als an' E. rewrite walkv_alts_nil in E. inversion E; subst. exists []. repeat split.
+      + intros k [].
+      + intros st' t [].
+    - intros s IHs rest IHr Hok st an als an' E. cbn [redef_ok redef_props redef_alts] in Hok.
+      apply andb_prop in Hok. destruct Hok as [O1 O2]. rewrite walkv_alts_cons in E.
+      destruct (walkv dcount r s st an) as [[l an1]|e] eqn:Es; [|discriminate].
+      destruct (walkv_alts dcount r rest st an1) as [[ls an2]|e] eqn:Er; [|discriminate].
+      inversion E; subst. destruct (IHs O1 _ _ _ _ Es) as [n1 [H1 [Hi1 [Hs1 Hr1]]]]. destruct (IHr O2 _ _ _ _ Er) as [n2 [H2 [Hi2 [Hs2 Hr2]]]]. subst.
+      exists (n2 ++ n1). split; [now rewrite <- app_assoc|]. split; [|split].
+      + cbn [jkeys_alts]. rewrite keysof_app. intros x Hx. apply in_or_app. apply in_app_or in Hx. destruct Hx; [right|left]; auto.
+      + intros st' t H. cbn [sub_ref_alts] in H. rewrite keysof_app. apply in_or_app. destruct H as [H|H]; [right|left]; eauto.
+      + now apply rankedF_app.
+  Qed.
+End L1.
+
+
+Lemma wlookup_shift_an : forall D t an, wlookup t (shift_an D an) = option_map (wshift D) (wlookup t an).
+Proof.
+  intros D t an. induction an as [|[k l] an IH]; [reflexivity|]. cbn [shift_an map wlookup fst snd].
+  destruct (key_eqb t k); [reflexivity|exact IH].
+Qed.
+
+Lemma keysof_shift_an : forall D an, keysof (shift_an D an) = keysof an.
+Proof. intros D an. unfold keysof, shift_an. rewrite map_map. reflexivity. Qed.
+
+Section V.
+  Variable B : Type.
+  Variable A : Type.
+  Variable dec : option key -> list B -> res A.
+  Variable r : list B.
+  Notation pvA := (pv A).
+
+  (* moving a location and its anchors together is moving the offset *)
+  Lemma shift_body : forall an an' (d d' : wloc -> nat -> vres pvA) D,
+    (forall l,
+       (forall st t, sub_ref l st t -> exists lt, wlookup t an = Some lt /\ wlookup t an' = Some (wshift D lt)
+                                          /\ forall o, d' (wshift D lt) o = d lt (o + D)) ->
+       forall o, value_body r dec an' d' (wshift D l) o = value_body r dec an d l (o + D))
+    /\ (forall ps,
+       (forall st t, sub_ref_props ps st t -> exists lt, wlookup t an = Some lt /\ wlookup t an' = Some (wshift D lt)
+                                          /\ forall o, d' (wshift D lt) o = d lt (o + D)) ->
+       forall o, props_body r dec an' d' (wshift_props D ps) o = props_body r dec an d ps (o + D))
+    /\ (forall ls,
+       (forall st t, sub_ref_alts ls st t -> exists lt, wlookup t an = Some lt /\ wlookup t an' = Some (wshift D lt)
+                                          /\ forall o, d' (wshift D lt) o = d lt (o + D)) ->
+       first_alt (fun l => forall o, value_body r dec an' d' (wshift D l) o = value_body r dec an d l (o + D)) ls).
+  Proof.
+    intros an an' d d' D. apply wloc_wprops_walts_ind.
+    - intros a st sz _ o. cbn [wshift]. rewrite !(vb_atom B A dec).
+      replace (st + D + o) with (st + (o + D)) by lia. replace (st + D + sz + o) with (st + sz + (o + D)) by lia. reflexivity.
+    - intros st sz isz cnt it IH sch H o. cbn [wshift]. rewrite !(vb_arr B A dec).
+      rewrite (seq_values_ext (fun i => value_body r dec an' d' (wshift D it) (o + i * isz))
+                              (fun i => value_body r dec an d it (o + D + i * isz)) cnt 0); [reflexivity|].
+      intros j _. rewrite IH by exact H. f_equal. lia.
+    - intros st sz ps IH H o. cbn [wshift]. rewrite !(vb_obj B A dec). now rewrite IH.
+    - intros st sz alts IH H o. cbn [wshift]. rewrite !(vb_one B A dec).
+      destruct alts as [|first rest]; [reflexivity|]. cbn [wshift_alts]. exact (IH H o).
+    - intros st t H o. cbn [wshift]. rewrite !(vb_ref B A dec).
+      destruct (H st t (conj eq_refl eq_refl)) as [lt [H1 [H2 H3]]]. rewrite H1, H2. apply H3.
+    - intros _ o. reflexivity.
+    - intros k l IHl rest IHr H o. cbn [wshift_props]. rewrite !(pb_cons B A dec).
+      rewrite IHl by (intros st t Hs; apply (H st t); now left).
+      rewrite IHr by (intros st t Hs; apply (H st t); now right). reflexivity.
+    - intros _. exact I.
+    - intros l IHl rest _ H. cbn [first_alt]. apply IHl. intros st t Hs. apply (H st t). now left.
+  Qed.
+
+  (* the value of a location depends on the treatment of references only at the targets of its own references *)
+  Lemma body_ext : forall an (d d' : wloc -> nat -> vres pvA) l,
+    (forall st t, sub_ref l st t -> exists lt, wlookup t an = Some lt /\ forall o, d' lt o = d lt o) ->
+    forall o, value_body r dec an d' l o = value_body r dec an d l o.
+  Proof.
+    intros an d d' l H o.
+    pose proof (proj1 (shift_body an an d d' 0) l) as Hs.
+    rewrite (proj1 wshift_0) in Hs. rewrite Hs; [now rewrite Nat.add_0_r|].
+    intros st t Hr. destruct (H st t Hr) as [lt [H1 H2]]. exists lt. rewrite (proj1 wshift_0).
+    repeat split; auto. intros o'. now rewrite Nat.add_0_r.
+  Qed.
+
+  Lemma wvalue_body : forall an f, exists dr, wvalue r dec f an = value_body r dec an dr
+      /\ dr = match f with O => (fun _ _ => None) | S f' => wvalue r dec f' an end.
+  Proof. intros an [|f]; eexists; split; reflexivity. Qed.
+
+  (* fuel: with ranked, coherent anchors the value of a location whose references fall among the oldest n
+     registrations needs no more than fuel n *)
+  Lemma settled : forall an, coherent an -> forall suf pre,
+    rankedF (pre ++ suf) -> (forall x, In x (pre ++ suf) -> In x an) ->
+    forall l, (forall st t, sub_ref l st t -> In t (keysof suf)) ->
+    forall f o, length suf <= f -> wvalue r dec f an l o = wvalue r dec (length suf) an l o.
+  Proof.
+    intros an Hc. induction suf as [|[k lk] suf IH]; intros pre Hr Hin l Hl f o Hf.
+    - destruct (wvalue_body an f) as [d1 [E1 _]]. destruct (wvalue_body an (length (@nil (key * wloc)))) as [d2 [E2 _]].
+      rewrite E1, E2. apply body_ext. intros st t Hs. destruct (Hl st t Hs).
+    - cbn [length] in *. destruct f as [|f]; [lia|]. rewrite !(wvalue_S B A dec). apply body_ext.
+      intros st t Hs. specialize (Hl st t Hs).
+      assert (Hpre : pre ++ (k, lk) :: suf = (pre ++ [(k, lk)]) ++ suf) by (rewrite <- app_assoc; reflexivity).
+      assert (Hr' : rankedF ((k, lk) :: suf)) by (apply (rankedF_skip pre); exact Hr).
+      cbn [rankedF] in Hr'. destruct Hr' as [Hk Hrs].
+      assert (Htarget : exists lt, In (t, lt) (pre ++ (k, lk) :: suf) /\ forall st' t', sub_ref lt st' t' -> In t' (keysof suf)).
+      { cbn [keysof map fst] in Hl. destruct Hl as [<-|Hl].
+        - exists lk. split; [apply in_or_app; right; now left|exact Hk].
+        - unfold keysof in Hl. apply in_map_iff in Hl. destruct Hl as [[t' lt] [Et Hlt]]. cbn [fst] in Et. subst t'.
+          exists lt. split; [apply in_or_app; right; now right|].
+          destruct (in_split _ _ Hlt) as [p2 [s2 Es]]. rewrite Es in Hrs. apply rankedF_skip in Hrs. cbn [rankedF] in Hrs.
+          intros st' t' Hs'. rewrite Es, keysof_app. apply in_or_app. right. cbn [keysof map]. right. exact (proj1 Hrs st' t' Hs'). }
+      destruct Htarget as [lt [Hlt Hrefs]]. exists lt. split; [apply wlookup_coherent; [exact Hc|apply Hin; exact Hlt]|].
+      intros o'. rewrite Hpre in Hr, Hin.
+      rewrite (IH (pre ++ [(k, lk)]) Hr Hin lt Hrefs f o') by lia. reflexivity.
+  Qed.
+
+  (* the anchors of a re-walked item are those of the first occurrence, moved *)
+  Lemma shift_wvalue : forall an new D, coherent an -> (forall x, In x new -> In x an) ->
+    (forall k lk, In (k, lk) new -> forall st t, sub_ref lk st t -> In t (keysof new)) ->
+    forall f l, (forall st t, sub_ref l st t -> In t (keysof new)) ->
+    forall o, wvalue r dec f (shift_an D new) (wshift D l) o = wvalue r dec f an l (o + D).
+  Proof.
+    intros an new D Hc Hin Hcl.
+    assert (Hcn : coherent new) by (eapply coherent_incl; eauto).
+    assert (Hlk : forall t, In t (keysof new) -> exists lt, In (t, lt) new /\ wlookup t an = Some lt /\ wlookup t (shift_an D new) = Some (wshift D lt)).
+    { intros t Ht. unfold keysof in Ht. apply in_map_iff in Ht. destruct Ht as [[t' lt] [Et Hlt]]. cbn [fst] in Et. subst t'.
+      exists lt. split; [exact Hlt|]. split; [apply wlookup_coherent; auto|].
+      rewrite wlookup_shift_an, (wlookup_coherent new t lt Hcn Hlt). reflexivity. }
+    induction f as [|f IH]; intros l Hl o.
+    - rewrite !(wvalue_0 B A dec). apply (proj1 (shift_body an (shift_an D new) _ _ D)).
+      intros st t Hs. destruct (Hlk t (Hl st t Hs)) as [lt [_ [H1 H2]]]. exists lt. repeat split; auto.
+    - rewrite !(wvalue_S B A dec). apply (proj1 (shift_body an (shift_an D new) _ _ D)).
+      intros st t Hs. destruct (Hlk t (Hl st t Hs)) as [lt [H0 [H1 H2]]]. exists lt. repeat split; auto.
+      intros o'. apply IH. intros st' t'. apply (Hcl t lt H0).
+  Qed.
+End V.
+
+
+Definition is_wref (l : wloc) : bool := match l with WRef _ _ => true | _ => false end.
+Definition is_jref (s : js) : bool := match s with JRef _ => true | _ => false end.
+
+Section T.
+  Variable B : Type.
+  Variable dcount : list B -> nat.
+  Variable r : list B.
+
+  (* every table remembers how its first occurrence was walked and that its registrations are still in force;
+     every $ref placeholder of an object resolves to a registered location lying inside that object *)
+  Fixpoint tidy (anF : wanchors) (l : wloc) : Prop :=
+    match l with
+    | WAtom _ _ _ => True
+    | WRef _ _ => False
+    | WArr st sz isz cnt it sch =>
+        redef_ok sch = true /\ NoDup (jkeys sch) /\ tidy anF it /\
+        exists an0 nw, walkv dcount r sch st an0 = Ok (it, nw ++ an0) /\ (forall x, In x nw -> In x anF)
+    | WObj st sz ps => tidy_props anF st (st + sz) ps
+    | WOne st sz alts => tidy_alts anF alts
+    end
+  with tidy_props (anF : wanchors) (lo hi : nat) (ps : wprops) : Prop :=
+    match ps with
+    | WPNil => True
+    | WPCons _ l rest =>
+        match l with
+        | WRef _ t => exists lt, In (t, lt) anF /\ lo <= wstart lt /\ wend lt <= hi
+        | _ => tidy anF l
+        end /\ tidy_props anF lo hi rest
+    end
+  with tidy_alts (anF : wanchors) (ls : walts) : Prop :=
+    match ls with WANil => True | WACons l rest => tidy anF l /\ tidy_alts anF rest end.
+
+  Lemma tidy_obj : forall anF st sz ps, tidy anF (WObj st sz ps) = tidy_props anF st (st + sz) ps.
+  Proof. reflexivity. Qed.
+  Lemma tidy_arr : forall anF st sz isz cnt it sch, tidy anF (WArr st sz isz cnt it sch) =
+    (redef_ok sch = true /\ NoDup (jkeys sch) /\ tidy anF it /\
+     exists an0 nw, walkv dcount r sch st an0 = Ok (it, nw ++ an0) /\ (forall x, In x nw -> In x anF)).
+  Proof. reflexivity. Qed.
+  Lemma tidy_one : forall anF st sz alts, tidy anF (WOne st sz alts) = tidy_alts anF alts.
+  Proof. reflexivity. Qed.
+  Lemma tidy_alts_cons : forall anF l rest, tidy_alts anF (WACons l rest) = (tidy anF l /\ tidy_alts anF rest).
+  Proof. reflexivity. Qed.
+
+  Lemma walkv_not_ref : forall s st an l an', is_jref s = false -> walkv dcount r s st an = Ok (l, an') -> is_wref l = false.
+  Proof.
+    intros s st an l an' Hs E. destruct s as [a sz|a n its|a c its|a ps|a alts|t]; try discriminate.
+    - rewrite walkv_atom in E. inversion E; reflexivity.
+    - rewrite walkv_arr in E. destruct (walkv dcount r its st an) as [[sub an1]|e]; [|discriminate]. inversion E; reflexivity.
+    - rewrite walkv_odo in E. destruct (wlookup (KName c) an) as [[ca cst csz| | | |]|]; try discriminate.
+      destruct (walkv dcount r its st an) as [[sub an1]|e]; [|discriminate]. inversion E; reflexivity.
+    - rewrite walkv_obj in E. destruct (walkv_props dcount r ps st an) as [[[pls off] an1]|e]; [|discriminate]. inversion E; reflexivity.
+    - destruct alts as [|s0 rest]; [discriminate|]. rewrite walkv_one in E.
+      destruct (walkv_alts dcount r (ACons s0 rest) st an) as [[als an1]|e]; [|discriminate]. inversion E; reflexivity.
+  Qed.
+
+  (* the direct alternatives of a oneOf are registered, start where the oneOf starts and are no longer than it *)
+  Lemma alts_entries : forall alts st an als an', walkv_alts dcount r alts st an = Ok (als, an') ->
+    exists new, an' = new ++ an /\
+      forall t, In t (alt_anchors alts) -> exists lt, In (t, lt) new /\ wstart lt = st /\ wsize lt <= wmax_size als.
+  Proof.
+    induction alts as [|s rest IH]; intros st an als an' E.
+    - rewrite walkv_alts_nil in E. inversion E; subst. exists []. split; [reflexivity|]. intros t [].
+    - rewrite walkv_alts_cons in E.
+      destruct (walkv dcount r s st an) as [[l an1]|e] eqn:Es; [|discriminate].
+      destruct (walkv_alts dcount r rest st an1) as [[ls an2]|e] eqn:Er; [|discriminate]. inversion E; subst.
+      destruct (proj1 (walkv_keys B dcount r) _ _ _ _ _ Es) as [n1 [H1 [_ [_ Ha]]]]. subst an1.
+      destruct (IH _ _ _ _ Er) as [n2 [H2 Hr]]. subst an'.
+      destruct (proj1 (walkv_wf B dcount r) _ _ _ _ _ Es) as [Hst _].
+      exists (n2 ++ n1). split; [now rewrite <- app_assoc|]. intros t Ht. cbn [alt_anchors] in Ht. apply in_app_or in Ht.
+      destruct Ht as [Ht|Ht].
+      + destruct (js_anchor s) as [a|] eqn:Ea; [|destruct Ht]. destruct Ht as [<-|[]].
+        exists l. split; [apply in_or_app; right; now apply Ha|]. split; [exact Hst|]. cbn [wmax_size]. lia.
+      + destruct (Hr t Ht) as [lt [G1 [G2 G3]]]. exists lt. split; [apply in_or_app; now left|]. split; [exact G2|].
+        cbn [wmax_size]. lia.
+  Qed.
+
+  Definition tidy_prop (anF : wanchors) (lo hi : nat) (l : wloc) : Prop :=
+    match l with
+    | WRef _ t => exists lt, In (t, lt) anF /\ lo <= wstart lt /\ wend lt <= hi
+    | _ => tidy anF l
+    end.
+
+  Lemma tidy_prop_plain : forall anF lo hi l, tidy anF l -> tidy_prop anF lo hi l.
+  Proof. intros anF lo hi l T. destruct l; try exact T. destruct T. Qed.
+
+  Lemma tidy_props_cons : forall anF lo hi k l rest,
+    tidy_props anF lo hi (WPCons k l rest) <-> tidy_prop anF lo hi l /\ tidy_props anF lo hi rest.
+  Proof. intros. destruct l; reflexivity. Qed.
+
+  Lemma walkv_tidy :
+    (forall s, redef_ok s = true -> NoDup (jkeys s) -> forall st an l an', walkv dcount r s st an = Ok (l, an') ->
+       exists new, an' = new ++ an /\
+         forall anF, (forall x, In x new -> In x anF) -> tidy anF l /\ (forall k l', In (k, l') new -> tidy anF l'))
+    /\ (forall ps seen, redef_props seen ps = true -> NoDup (jkeys_props ps) -> forall off an pls off' an', walkv_props dcount r ps off an = Ok (pls, off', an') ->
+       exists new, an' = new ++ an /\
+         forall anF lo hi, (forall x, In x new -> In x anF) -> lo <= off -> off' <= hi ->
+           (forall t, In t seen -> exists lt, In (t, lt) anF /\ lo <= wstart lt /\ wend lt <= off) ->
+           tidy_props anF lo hi pls /\ (forall k l', In (k, l') new -> tidy anF l'))
+    /\ (forall alts, redef_alts alts = true -> NoDup (jkeys_alts alts) -> forall st an als an', walkv_alts dcount r alts st an = Ok (als, an') ->
+       exists new, an' = new ++ an /\
+         forall anF, (forall x, In x new -> In x anF) -> tidy_alts anF als /\ (forall k l', In (k, l') new -> tidy anF l')).
+  Proof.
+    assert (Hreg : forall anF a l new, tidy anF l -> (forall k l', In (k, l') new -> tidy anF l') ->
+              forall k l', In (k, l') (wreg a l new) -> tidy anF l').
+    { intros anF a l new Hl Hn k l' Hin. destruct a as [a|]; [|eauto]. destruct Hin as [Hin|Hin]; [inversion Hin; now subst|eauto]. }
+    assert (Hsub : forall a l (new : wanchors) x, In x new -> In x (wreg a l new)).
+    { intros a l new x Hx. destruct a; [now right|exact Hx]. }
+    apply js_props_alts_ind.
+    - intros a sz _ _ st an l an' E. rewrite walkv_atom in E. inversion E; subst.
+      exists (wreg a (WAtom a st sz) []). split; [now rewrite <- wreg_app|]. intros anF Hi. split; [exact I|].
+      apply Hreg; [exact I|intros k l' []].
+    - intros a n its IH Hok Hnd st an l an' E. cbn [redef_ok redef_props redef_alts] in Hok. rewrite walkv_arr in E.
+      cbn [jkeys] in Hnd. apply NoDup_app_r' in Hnd.
+      destruct (walkv dcount r its st an) as [[sub an1]|e] eqn:Es; [|discriminate]. inversion E; subst.
+      destruct (IH Hok Hnd _ _ _ _ Es) as [new [Hn Ht]]. subst an1.
+      eexists. split; [now rewrite wreg_app|]. intros anF Hi.
+      destruct (Ht anF (fun x Hx => Hi x (Hsub _ _ _ x Hx))) as [T1 T2].
+      assert (Tl : tidy anF (WArr st (wsize sub * n) (wsize sub) n sub its)).
+      { cbn [tidy]. split; [exact Hok|]. split; [exact Hnd|]. split; [exact T1|]. exists an, new. split; [exact Es|]. intros x Hx. apply Hi. now apply Hsub. }
+      split; [exact Tl|]. now apply Hreg.
+    - intros a c its IH Hok Hnd st an l an' E. cbn [redef_ok redef_props redef_alts] in Hok. rewrite walkv_odo in E.
+      cbn [jkeys] in Hnd. apply NoDup_app_r' in Hnd.
+      destruct (wlookup (KName c) an) as [[ca cst csz| | | |]|]; try discriminate.
+      destruct (walkv dcount r its st an) as [[sub an1]|e] eqn:Es; [|discriminate]. inversion E; subst.
+      destruct (IH Hok Hnd _ _ _ _ Es) as [new [Hn Ht]]. subst an1.
+      eexists. split; [now rewrite wreg_app|]. intros anF Hi.
+      destruct (Ht anF (fun x Hx => Hi x (Hsub _ _ _ x Hx))) as [T1 T2].
+      match goal with |- tidy anF ?L /\ _ => assert (Tl : tidy anF L) end.
+      { cbn [tidy]. split; [exact Hok|]. split; [exact Hnd|]. split; [exact T1|]. exists an, new. split; [exact Es|]. intros x Hx. apply Hi. now apply Hsub. }
+      split; [exact Tl|]. now apply Hreg.
+    - intros a ps IH Hok Hnd st an l an' E. cbn [redef_ok redef_props redef_alts] in Hok. rewrite walkv_obj in E.
+      cbn [jkeys] in Hnd. apply NoDup_app_r' in Hnd.
+      destruct (walkv_props dcount r ps st an) as [[[pls off] an1]|e] eqn:Es; [|discriminate]. inversion E; subst.
+      destruct (IH [] Hok Hnd _ _ _ _ _ Es) as [new [Hn Ht]]. subst an1.
+      destruct (proj1 (proj2 (walkv_wf B dcount r)) _ _ _ _ _ _ Es) as [_ [Hch _]]. pose proof (chain_ge pls st) as Hge.
+      eexists. split; [now rewrite wreg_app|]. intros anF Hi.
+      destruct (Ht anF st (st + (off - st)) (fun x Hx => Hi x (Hsub _ _ _ x Hx))) as [T1 T2]; [lia|lia|intros t []|].
+      split; [exact T1|]. apply Hreg; [exact T1|exact T2].
+    - intros a alts IH Hok Hnd st an l an' E. cbn [redef_ok redef_props redef_alts] in Hok.
+      cbn [jkeys] in Hnd. apply NoDup_app_r' in Hnd.
+      destruct alts as [|s0 rest]; [discriminate|]. rewrite walkv_one in E.
+      destruct (walkv_alts dcount r (ACons s0 rest) st an) as [[als an1]|e] eqn:Es; [|discriminate]. inversion E; subst.
+      destruct (IH Hok Hnd _ _ _ _ Es) as [new [Hn Ht]]. subst an1.
+      eexists. split; [now rewrite wreg_app|]. intros anF Hi.
+      destruct (Ht anF (fun x Hx => Hi x (Hsub _ _ _ x Hx))) as [T1 T2].
+      split; [exact T1|]. apply Hreg; [exact T1|exact T2].
+    - intros t Hok. discriminate.
+    - intros seen _ _ off an pls off' an' E. rewrite walkv_props_nil in E. inversion E; subst. exists []. split; [reflexivity|].
+      intros anF lo hi _ _ _ _. split; [exact I|intros k l' []].
+    - intros k s IHs rest IHr seen Hok Hnd off an pls off' an' E. rewrite walkv_props_cons in E.
+      cbn [jkeys_props] in Hnd. pose proof (NoDup_app_l' _ _ Hnd) as Hnd1. pose proof (NoDup_app_r' _ _ Hnd) as Hnd2.
+      destruct (walkv dcount r s off an) as [[pl an1]|e] eqn:Es; [|discriminate].
+      destruct (walkv_props dcount r rest (off + wsize pl) (wreg (js_anchor s) pl an1)) as [[[rl off1] an2]|e] eqn:Er; [|discriminate].
+      inversion E; subst. clear E.
+      destruct (proj1 (proj2 (walkv_wf B dcount r)) _ _ _ _ _ _ Er) as [_ [Hch _]]. pose proof (chain_ge rl (off + wsize pl)) as Hge.
+      destruct (proj1 (walkv_extends B dcount r) _ _ _ _ _ Es) as [n1 Hn1]. subst an1.
+      assert (Hgen : forall seen2, is_jref s = false -> redef_ok s = true -> redef_props seen2 rest = true ->
+                (forall anF lo, (forall x, In x n1 -> In x anF) -> lo <= off ->
+                   (forall t, In t seen -> exists lt, In (t, lt) anF /\ lo <= wstart lt /\ wend lt <= off) ->
+                   forall t, In t seen2 -> exists lt, In (t, lt) anF /\ lo <= wstart lt /\ wend lt <= off + wsize pl) ->
+                exists new, an' = new ++ an /\
+                  forall anF lo hi, (forall x, In x new -> In x anF) -> lo <= off -> off' <= hi ->
+                    (forall t, In t seen -> exists lt, In (t, lt) anF /\ lo <= wstart lt /\ wend lt <= off) ->
+                    tidy_props anF lo hi (WPCons k pl rl) /\ (forall k0 l', In (k0, l') new -> tidy anF l')).
+      { intros seen2 Hjr Hs2 Hr2 Hseen.
+        destruct (IHs Hs2 Hnd1 _ _ _ _ Es) as [n1' [Hn1' Ht1]]. apply app_inv_tail in Hn1'. subst n1'.
+        destruct (IHr seen2 Hr2 Hnd2 _ _ _ _ _ Er) as [n2 [Hn2 Ht2]]. subst an'.
+        exists (n2 ++ wreg (js_anchor s) pl n1). split; [now rewrite <- app_assoc, wreg_app|].
+        intros anF lo hi Hi Hlo Hhi Hsn.
+        assert (Hi1 : forall x, In x n1 -> In x anF) by (intros x Hx; apply Hi; apply in_or_app; right; now apply Hsub).
+        destruct (Ht1 anF Hi1) as [T1 T1'].
+        destruct (Ht2 anF lo hi) as [T2 T2']; [intros x Hx; apply Hi; apply in_or_app; now left|lia|lia|exact (Hseen anF lo Hi1 Hlo Hsn)|].
+        split.
+        - apply tidy_props_cons. split; [|exact T2]. apply tidy_prop_plain. exact T1.
+        - intros k0 l' Hin. apply in_app_or in Hin. destruct Hin as [Hin|Hin]; [exact (T2' _ _ Hin)|]. exact (Hreg anF (js_anchor s) pl n1 T1 T1' k0 l' Hin). }
+      assert (Hkeep : forall anF lo (w : nat), (forall t, In t seen -> exists lt, In (t, lt) anF /\ lo <= wstart lt /\ wend lt <= off) ->
+                forall t, In t seen -> exists lt, In (t, lt) anF /\ lo <= wstart lt /\ wend lt <= off + w).
+      { intros anF lo w H t Ht. destruct (H t Ht) as [lt [G1 [G2 G3]]]. exists lt. repeat split; auto. lia. }
+      destruct s as [a sz|a n its|a c its|a ps|a alts|t]; cbn [redef_ok redef_props redef_alts] in Hok.
+      + apply andb_prop in Hok. destruct Hok as [O1 O2]. apply (Hgen seen); auto.
+      + apply andb_prop in Hok. destruct Hok as [O1 O2]. apply (Hgen seen); auto.
+      + apply andb_prop in Hok. destruct Hok as [O1 O2]. apply (Hgen seen); auto.
+      + apply andb_prop in Hok. destruct Hok as [O1 O2]. apply (Hgen seen); auto.
+      + apply andb_prop in Hok. destruct Hok as [O1 O2]. apply (Hgen (alt_anchors alts ++ seen)); auto.
+        intros anF lo Hi1 Hlo H t Ht. apply in_app_or in Ht. destruct Ht as [Ht|Ht]; [|now apply Hkeep].
+        (* an alternative of this oneOf *)
+        destruct alts as [|s0 arest]; [destruct Ht|]. rewrite walkv_one in Es.
+        destruct (walkv_alts dcount r (ACons s0 arest) off an) as [[als ana]|e] eqn:Ea; [|discriminate]. injection Es as Epl Ean. subst pl.
+        destruct (alts_entries _ _ _ _ _ Ea) as [na [Hna Hent]]. subst ana.
+        rewrite wreg_app in Ean. apply app_inv_tail in Ean. subst n1.
+        destruct (Hent t Ht) as [lt [G1 [G2 G3]]]. exists lt. split; [apply Hi1; now apply Hsub|].
+        unfold wend. cbn [wsize]. lia.
+      + apply andb_prop in Hok. destruct Hok as [O1 O2]. apply memk_In in O1.
+        rewrite walkv_ref in Es. injection Es as Epl Ean. subst pl. cbn [js_anchor wreg wsize] in Er. symmetry in Ean. apply (app_inv_tail an n1 []) in Ean. subst n1. cbn [app] in Er.
+        destruct (IHr seen O2 Hnd2 _ _ _ _ _ Er) as [n2 [Hn2 Ht2]]. subst an'.
+        exists n2. split; [reflexivity|]. intros anF lo hi Hi Hlo Hhi Hsn. cbn [wsize] in *.
+        destruct (Ht2 anF lo hi Hi) as [T2 T2']; [lia|lia| |].
+        * intros t0 Ht0. destruct (Hsn t0 Ht0) as [lt [G1 [G2 G3]]]. exists lt. repeat split; auto. lia.
+        * split; [|exact T2']. apply tidy_props_cons. split; [|exact T2]. cbn [tidy_prop].
+          destruct (Hsn t O1) as [lt [G1 [G2 G3]]]. exists lt. repeat split; auto. lia.
+    - intros _ _ st an als an' E. rewrite walkv_alts_nil in E. inversion E; subst. exists []. split; [reflexivity|].
+      intros anF _. split; [exact I|intros k l' []].
+    - intros s IHs rest IHr Hok Hnd st an als an' E. cbn [redef_ok redef_props redef_alts] in Hok.
+      cbn [jkeys_alts] in Hnd. pose proof (NoDup_app_l' _ _ Hnd) as Hnd1. pose proof (NoDup_app_r' _ _ Hnd) as Hnd2.
+      apply andb_prop in Hok. destruct Hok as [O1 O2]. rewrite walkv_alts_cons in E.
+      destruct (walkv dcount r s st an) as [[l an1]|e] eqn:Es; [|discriminate].
+      destruct (walkv_alts dcount r rest st an1) as [[ls an2]|e] eqn:Er; [|discriminate].
+      inversion E; subst. destruct (IHs O1 Hnd1 _ _ _ _ Es) as [n1 [H1 T1]]. destruct (IHr O2 Hnd2 _ _ _ _ Er) as [n2 [H2 T2]]. subst.
+      exists (n2 ++ n1). split; [now rewrite <- app_assoc|]. intros anF Hi.
+      destruct (T1 anF) as [A1 A2]; [intros x Hx; apply Hi; apply in_or_app; now right|].
+      destruct (T2 anF) as [B1 B2]; [intros x Hx; apply Hi; apply in_or_app; now left|].
+      split; [split; assumption|]. intros k l' Hin. apply in_app_or in Hin. destruct Hin; eauto.
+  Qed.
+End T.
+
+
+Lemma rankedF_closed : forall an k l, rankedF an -> In (k, l) an -> forall st t, sub_ref l st t -> In t (keysof an).
+Proof.
+  intros an k l Hr Hin st t Hs. destruct (in_split _ _ Hin) as [p [s E]]. subst an.
+  apply rankedF_skip in Hr. cbn [rankedF] in Hr. rewrite keysof_app. apply in_or_app. right. cbn [keysof map]. right.
+  exact (proj1 Hr st t Hs).
+Qed.
+
+Lemma coherent_shift_an : forall D an, coherent an -> coherent (shift_an D an).
+Proof.
+  intros D an Hc k l1 l2 H1 H2. unfold shift_an in *. apply in_map_iff in H1. apply in_map_iff in H2.
+  destruct H1 as [[k1 x1] [E1 I1]]. destruct H2 as [[k2 x2] [E2 I2]]. cbn [fst snd] in *.
+  inversion E1; inversion E2; subst. f_equal. now apply (Hc k).
+Qed.
+
+Section N.
+  Variable B : Type.
+  Variable dcount : list B -> nat.
+  Variable A : Type.
+  Variable dec : option key -> list B -> res A.
+  Variable r : list B.
+  Notation pvA := (pv A).
+
+  (* what holds of every navigator obtained from unpacker.nav on a cobol_like schema by names and indices *)
+  Definition J (v : vnav) : Prop :=
+    inv B dcount r v /\ coherent (vn_an v) /\ tidy B dcount r (vn_an v) (vn_loc v)
+    /\ (forall k l, In (k, l) (vn_an v) -> tidy B dcount r (vn_an v) l).
+
+  Lemma J_walk : forall s st l an, redef_ok s = true -> NoDup (jkeys s) ->
+    walkv dcount r s st [] = Ok (l, an) -> inv B dcount r (mkvnav l an) -> J (mkvnav l an).
+  Proof.
+    intros s st l an Hok Hnd Ew Hinv. split; [exact Hinv|]. cbn [vn_an vn_loc].
+    destruct (proj1 (walkv_keys B dcount r) _ _ _ _ _ Ew) as [n1 [E1 [_ [Hc _]]]].
+    destruct (proj1 (walkv_tidy B dcount r) s Hok Hnd _ _ _ _ Ew) as [n2 [E2 Ht]].
+    rewrite app_nil_r in E1, E2. subst n1 n2. split; [now apply Hc|]. apply Ht. auto.
+  Qed.
+
+  Lemma J_of : forall s v, cobol_like s = true -> vnav_of dcount r s = Ok v -> J v.
+  Proof.
+    intros s v Hc E. unfold cobol_like in Hc. apply andb_prop in Hc. destruct Hc as [H1 H2]. apply nodupk_NoDup in H2.
+    pose proof (inv_of B dcount r s v E) as Hinv.
+    unfold vnav_of in E. destruct (walkv dcount r s 0 []) as [[l an]|e] eqn:Ew; [|discriminate]. inversion E; subst.
+    eapply J_walk; eauto.
+  Qed.
+
+  Lemma tidy_props_find : forall anF lo hi ps k c, tidy_props B dcount r anF lo hi ps -> wfind k ps = Some c -> tidy_prop B dcount r anF lo hi c.
+  Proof.
+    induction ps as [|k0 l rest IH]; intros k c Ht Hf; [discriminate|]. apply (proj1 (tidy_props_cons B dcount r _ _ _ _ _ _)) in Ht. destruct Ht as [H1 H2].
+    cbn [wfind] in Hf. destruct (key_eqb k k0); [inversion Hf; now subst|eauto].
+  Qed.
+
+  Lemma J_name : forall v k v', J v -> vnav_name v k = Ok v' -> J v'.
+  Proof.
+    intros v k v' [Hinv [Hc [Ht Ha]]] E. pose proof (inv_name B dcount r v k v' Hinv E) as Hinv'.
+    destruct v as [l an]. unfold vnav_name in E. cbn [vn_loc vn_an] in *.
+    destruct l as [a st sz|st sz isz cnt it sch|st sz ps|st sz alts|st t]; try discriminate.
+    destruct (wfind k ps) as [c|] eqn:Ef; [|discriminate]. rewrite tidy_obj in Ht.
+    pose proof (tidy_props_find _ _ _ _ _ _ Ht Ef) as Hp.
+    destruct c as [a' st' sz'|st' sz' isz' cnt' it' sch'|st' sz' ps'|st' sz' alts'|st' t'];
+      try (cbn [tidy_prop] in Hp; inversion E; subst v'; exact (conj Hinv' (conj Hc (conj Hp Ha)))).
+    destruct (wlookup t' an) as [target|] eqn:El; [|discriminate]. inversion E; subst v'.
+    destruct (wlookup_in _ _ _ El) as [k' Hin]. exact (conj Hinv' (conj Hc (conj (Ha _ _ Hin) Ha))).
+  Qed.
+
+  Lemma J_index : forall v i v', J v -> vnav_index dcount r v i = Ok v' -> J v'.
+  Proof.
+    intros v i v' [Hinv [Hc [Ht Ha]]] E. pose proof (inv_index B dcount r v i v' E) as Hinv'.
+    destruct v as [l an]. unfold vnav_index in E. cbn [vn_loc vn_an] in *.
+    destruct l as [a st sz|st sz isz cnt it sch|st sz ps|st sz alts|st t]; try discriminate.
+    destruct (cnt <=? i); [discriminate|]. rewrite tidy_arr in Ht. destruct Ht as [Hok [Hnd _]].
+    destruct (walkv dcount r sch (st + isz * i) []) as [[l' an']|e] eqn:Ew; [|discriminate]. inversion E; subst v'.
+    eapply J_walk; eauto.
+  Qed.
+
+  Lemma J_path : forall p v v', J v -> vnav_path dcount r v p = Ok v' -> J v'.
+  Proof.
+    induction p as [|s p IH]; intros v v' Hj E; cbn [vnav_path] in E; [inversion E; now subst|].
+    destruct (vnav_step dcount r v s) as [v1|e] eqn:Es; [|discriminate]. apply (IH v1); [|exact E].
+    destruct s as [k|i]; cbn [vnav_step] in Es; [eapply J_name|eapply J_index]; eauto.
+  Qed.
+
+  (* ---- (2) raw bytes: every child reached by name, $ref placeholders included, lies inside its parent ---- *)
+  Lemma name_inside_all : forall v k v', J v -> vnav_name v k = Ok v' ->
+    wstart (vn_loc v) <= wstart (vn_loc v') /\ wend (vn_loc v') <= wend (vn_loc v).
+  Proof.
+    intros v k v' Hj E. destruct (ref_prop v k) eqn:Er; [|exact (name_inside B dcount r v k v' (proj1 Hj) E Er)].
+    destruct Hj as [Hinv [Hc [Ht Ha]]]. destruct v as [l an]. unfold vnav_name, ref_prop in *. cbn [vn_loc vn_an] in *.
+    destruct l as [a st sz|st sz isz cnt it sch|st sz ps|st sz alts|st t]; try discriminate.
+    destruct (wfind k ps) as [c|] eqn:Ef; [|discriminate]. rewrite tidy_obj in Ht.
+    pose proof (tidy_props_find _ _ _ _ _ _ Ht Ef) as Hp.
+    destruct c as [a' st' sz'|st' sz' isz' cnt' it' sch'|st' sz' ps'|st' sz' alts'|st' t']; try discriminate.
+    cbn [tidy_prop] in Hp. destruct Hp as [lt [Hin [H1 H2]]]. rewrite (wlookup_coherent an t' lt Hc Hin) in E.
+    inversion E; subst v'. cbn [vn_loc wstart]. unfold wend at 2. cbn [wstart wsize]. lia.
+  Qed.
+
+  (* ---- (3) value() reads nothing outside the location's own range ---- *)
+  Lemma foot_tidy : forall an, coherent an -> all_an (wf B dcount r) an -> (forall k l, In (k, l) an -> tidy B dcount r an l) ->
+    forall f l, wf B dcount r l -> tidy B dcount r an l -> forall o a b, In (a, b) (wfoot f an l o) -> wstart l + o <= a /\ b <= wend l + o.
+  Proof.
+    intros an Hc Hwf Hta.
+    assert (Hbody : forall df, (forall lt, (exists k, In (k, lt) an) -> forall o a b, In (a, b) (df lt o) -> wstart lt + o <= a /\ b <= wend lt + o) ->
+      (forall l, wf B dcount r l -> tidy B dcount r an l -> forall o a b, In (a, b) (foot_body an df l o) -> wstart l + o <= a /\ b <= wend l + o)
+      /\ (forall ps, forall off lo hi, wf_props B dcount r ps off -> tidy_props B dcount r an lo hi ps -> lo <= off -> chain ps off <= hi ->
+            forall o a b, In (a, b) (foot_props an df ps o) -> lo + o <= a /\ b <= hi + o)
+      /\ (forall ls, forall st sz, wf_alts B dcount r ls st sz -> tidy_alts B dcount r an ls ->
+            first_alt (fun l => forall o a b, In (a, b) (foot_body an df l o) -> st + o <= a /\ b <= st + sz + o) ls)).
+    { intros df Hdf. apply wloc_wprops_walts_ind.
+      - intros a st sz _ _ o x y H. rewrite fb_atom in H. destruct H as [H|[]]. inversion H; subst. unfold wend. cbn [wstart wsize]. lia.
+      - intros st sz isz cnt it IH sch Hw Ht o x y H. rewrite tidy_arr in Ht. cbn [wf wf_props wf_alts] in Hw.
+        destruct Hw as [H1 [H2 [H3 [H4 _]]]]. destruct Ht as [_ [_ [Ht _]]]. rewrite fb_arr in H. apply in_flat_map in H. destruct H as [j [Hj Hin]].
+        apply in_seq in Hj. destruct (IH H4 Ht _ _ _ Hin) as [G1 G2]. unfold wend in *. cbn [wstart wsize]. rewrite H1, H2 in *. subst sz.
+        split; [lia|]. nia.
+      - intros st sz ps IH Hw Ht o x y H. rewrite tidy_obj in Ht. cbn [wf wf_props wf_alts] in Hw. destruct Hw as [H1 H2]. rewrite fb_obj in H.
+        destruct (IH st st (st + sz) H1 Ht (le_n _) ltac:(lia) _ _ _ H) as [G1 G2]. unfold wend. cbn [wstart wsize]. lia.
+      - intros st sz alts IH Hw Ht o x y H. rewrite tidy_one in Ht. cbn [wf wf_props wf_alts] in Hw. rewrite fb_one in H.
+        destruct alts as [|first rest]; [destruct H|]. specialize (IH st sz Hw Ht). cbn [first_alt] in IH.
+        destruct (IH _ _ _ H) as [G1 G2]. unfold wend. cbn [wstart wsize]. lia.
+      - intros st t _ Ht. destruct Ht.
+      - intros off lo hi _ _ _ _ o x y H. destruct H.
+      - intros k l IHl rest IHr off lo hi Hw Ht Hlo Hhi o x y H. cbn [wf wf_props wf_alts chain] in Hw, Hhi.
+        destruct Hw as [H1 [H2 H3]]. apply (proj1 (tidy_props_cons B dcount r _ _ _ _ _ _)) in Ht. destruct Ht as [T1 T2]. rewrite fp_cons in H.
+        pose proof (chain_ge rest (off + wsize l)) as Hge.
+        apply in_app_or in H. destruct H as [H|H].
+        + destruct l as [a' st' sz'|st' sz' isz' cnt' it' sch'|st' sz' ps'|st' sz' alts'|st' t'];
+            try (destruct (IHl H2 T1 _ _ _ H) as [G1 G2]; unfold wend in G2; lia).
+          cbn [tidy_prop] in T1. destruct T1 as [lt [Hin [L1 L2]]]. rewrite fb_ref in H.
+          rewrite (wlookup_coherent an t' lt Hc Hin) in H.
+          destruct (Hdf lt (ex_intro _ t' Hin) _ _ _ H) as [G1 G2]. lia.
+        + apply (IHr (off + wsize l) lo hi H3 T2); [lia|lia|exact H].
+      - intros st sz _ _. exact I.
+      - intros l IHl rest _ st sz Hw Ht. rewrite tidy_alts_cons in Ht. cbn [wf wf_props wf_alts] in Hw. cbn [first_alt].
+        destruct Hw as [H1 [H2 [H3 _]]]. destruct Ht as [T1 _].
+        intros o x y H. destruct (IHl H3 T1 _ _ _ H) as [G1 G2]. unfold wend in G2. lia. }
+    induction f as [|f IH]; intros l Hw Ht o a b H.
+    - rewrite wfoot_0 in H.
+      assert (Hdf : forall lt, (exists k, In (k, lt) an) -> forall o a b, In (a, b) ((fun (_ : wloc) (_ : nat) => @nil (nat * nat)) lt o) -> wstart lt + o <= a /\ b <= wend lt + o)
+        by (intros lt _ o' a' b' []).
+      exact (proj1 (Hbody _ Hdf) l Hw Ht o a b H).
+    - rewrite wfoot_S in H.
+      assert (Hdf : forall lt, (exists k, In (k, lt) an) -> forall o a b, In (a, b) (wfoot f an lt o) -> wstart lt + o <= a /\ b <= wend lt + o).
+      { intros lt [k Hin] o' a' b' H'. apply (IH lt); [exact (Hwf _ _ Hin)|exact (Hta _ _ Hin)|exact H']. }
+      exact (proj1 (Hbody _ Hdf) l Hw Ht o a b H).
+  Qed.
+
+  Lemma foot_inside_J : forall v, J v -> foot_inside v = true.
+  Proof.
+    intros [l an] [[Hw Hwa] [Hc [Ht Ha]]]. cbn [vn_loc vn_an] in *. unfold foot_inside, vnav_foot. cbn [vn_loc vn_an].
+    apply forallb_forall. intros [a b] Hin. cbn [fst snd].
+    destruct (foot_tidy an Hc Hwa Ha (length an) l Hw Ht 0 a b Hin) as [G1 G2].
+    apply andb_true_intro. split; apply Nat.leb_le; lia.
+  Qed.
+
+  (* ---- (1) whole and part, indices: items with $ref, without OCCURS DEPENDING ON ---- *)
+  Lemma commute_index_J : forall v st sz isz cnt it sch (xs : list pvA) i,
+    J v -> vn_loc v = WArr st sz isz cnt it sch -> odo_free sch = true ->
+    vnav_value r dec v = Some (Ok (PList xs)) -> i < cnt ->
+    exists v' x, vnav_index dcount r v i = Ok v' /\ nth_error xs i = Some x /\ vnav_value r dec v' = Some (Ok x).
+  Proof.
+    intros [l an] st sz isz cnt it sch xs i [Hinv [Hc [Ht Ha]]] Hl Hof Hv Hi. cbn [vn_loc vn_an] in *. subst l.
+    rewrite tidy_arr in Ht. destruct Ht as [Hok [Hnd [Tit [an0 [nw [Ew Hsub]]]]]].
+    destruct (proj1 (walkv_closed B dcount r) sch Hok _ _ _ _ Ew) as [n1 [E1 [_ [Hrefs Hrk]]]]. apply app_inv_tail in E1. subst n1.
+    destruct (proj1 (walkv_shift B dcount r) sch Hof _ _ _ _ Ew) as [n2 [E2 Hsh]]. apply app_inv_tail in E2. subst n2.
+    set (D := isz * i).
+    assert (Ei : vnav_index dcount r (mkvnav (WArr st sz isz cnt it sch) an) i = Ok (mkvnav (wshift D it) (shift_an D nw))).
+    { unfold vnav_index. cbn [vn_loc]. destruct (cnt <=? i) eqn:E; [apply Nat.leb_le in E; lia|]. fold D. rewrite Hsh, app_nil_r. reflexivity. }
+    unfold vnav_value in Hv. cbn [vn_loc vn_an] in Hv.
+    destruct (wvalue_body B A dec r an (length an)) as [dr [Hw _]]. rewrite Hw, (vb_arr B A dec) in Hv.
+    destruct (seq_values (fun j => value_body r dec an dr it (0 + j * isz)) cnt 0) as [[ys|e]|] eqn:Es; try discriminate.
+    inversion Hv; subst ys. destruct (seq_values_nth _ _ _ _ Es) as [_ Hn]. destruct (Hn i Hi) as [x [Hx1 Hx2]].
+    exists (mkvnav (wshift D it) (shift_an D nw)), x. split; [exact Ei|]. split; [exact Hx1|].
+    unfold vnav_value. cbn [vn_loc vn_an].
+    assert (Hlen : length (shift_an D nw) = length nw) by (unfold shift_an; apply map_length). rewrite Hlen.
+    rewrite (shift_wvalue B A dec r an nw D Hc Hsub (fun k lk Hin => rankedF_closed nw k lk Hrk Hin) (length nw) it Hrefs 0).
+    assert (Hwhole : wvalue r dec (length an) an it (0 + D) = Some (Ok x)).
+    { rewrite Hw. rewrite <- Hx2. f_equal. unfold D. lia. }
+    destruct (le_ge_dec (length nw) (length an)) as [Hle|Hge].
+    - rewrite <- (settled B A dec r an Hc nw [] Hrk Hsub it Hrefs (length an) (0 + D) Hle). exact Hwhole.
+    - apply (wvalue_mono B A dec r an (length an) (length nw)); [lia|exact Hwhole].
+  Qed.
+End N.
+
+(* ================================================================== tables without OCCURS DEPENDING ON *)
+
+
+(* every table inside a location remembers an items schema without OCCURS DEPENDING ON *)
+Fixpoint ofree_loc (l : wloc) : bool :=
+  match l with
+  | WAtom _ _ _ => true
+  | WArr _ _ _ _ it sch => odo_free sch && ofree_loc it
+  | WObj _ _ ps => ofree_props ps
+  | WOne _ _ alts => ofree_alts alts
+  | WRef _ _ => true
+  end
+with ofree_props (ps : wprops) : bool :=
+  match ps with WPNil => true | WPCons _ l r => ofree_loc l && ofree_props r end
+with ofree_alts (ls : walts) : bool :=
+  match ls with WANil => true | WACons l r => ofree_loc l && ofree_alts r end.
+
+Section OF.
+  Variable B : Type.
+  Variable dcount : list B -> nat.
+  Variable r : list B.
+
+  Definition ofree_an (an : wanchors) : Prop := forall k l, In (k, l) an -> ofree_loc l = true.
+
+  Lemma ofree_wreg : forall a l an, ofree_loc l = true -> ofree_an an -> ofree_an (wreg a l an).
+  Proof. intros [k|] l an Hl Ha; [|exact Ha]. intros k' l' [H|H]; [inversion H; now subst|eauto]. Qed.
+
+  Lemma walkv_ofree :
+    (forall s, odo_free s = true -> forall st an l an', walkv dcount r s st an = Ok (l, an') ->
+       ofree_loc l = true /\ (ofree_an an -> ofree_an an'))
+    /\ (forall ps, odo_free_props ps = true -> forall off an pls off' an', walkv_props dcount r ps off an = Ok (pls, off', an') ->
+       ofree_props pls = true /\ (ofree_an an -> ofree_an an'))
+    /\ (forall alts, odo_free_alts alts = true -> forall st an als an', walkv_alts dcount r alts st an = Ok (als, an') ->
+       ofree_alts als = true /\ (ofree_an an -> ofree_an an')).
+  Proof.
+    apply js_props_alts_ind.
+    - intros a sz _ st an l an' E. rewrite walkv_atom in E. inversion E; subst. split; [reflexivity|]. intros H. now apply ofree_wreg.
+    - intros a n its IH Hof st an l an' E. cbn [odo_free odo_free_props odo_free_alts] in Hof. rewrite walkv_arr in E.
+      destruct (walkv dcount r its st an) as [[sub an1]|e] eqn:Es; [|discriminate]. inversion E; subst.
+      destruct (IH Hof _ _ _ _ Es) as [H1 H2].
+      assert (Hl : ofree_loc (WArr st (wsize sub * n) (wsize sub) n sub its) = true) by (cbn [ofree_loc]; now rewrite Hof, H1).
+      split; [exact Hl|]. intros H. apply ofree_wreg; auto.
+    - intros a c its _ Hof. discriminate.
+    - intros a ps IH Hof st an l an' E. cbn [odo_free odo_free_props odo_free_alts] in Hof. rewrite walkv_obj in E.
+      destruct (walkv_props dcount r ps st an) as [[[pls off] an1]|e] eqn:Es; [|discriminate]. inversion E; subst.
+      destruct (IH Hof _ _ _ _ _ Es) as [H1 H2]. split; [exact H1|]. intros H. apply ofree_wreg; auto.
+    - intros a alts IH Hof st an l an' E. cbn [odo_free odo_free_props odo_free_alts] in Hof.
+      destruct alts as [|s0 rest]; [discriminate|]. rewrite walkv_one in E.
+      destruct (walkv_alts dcount r (ACons s0 rest) st an) as [[als an1]|e] eqn:Es; [|discriminate]. inversion E; subst.
+      destruct (IH Hof _ _ _ _ Es) as [H1 H2]. split; [exact H1|]. intros H. apply ofree_wreg; auto.
+    - intros t _ st an l an' E. rewrite walkv_ref in E. inversion E; subst. split; [reflexivity|auto].
+    - intros _ off an pls off' an' E. rewrite walkv_props_nil in E. inversion E; subst. split; [reflexivity|auto].
+    - intros k s IHs rest IHr Hof off an pls off' an' E. cbn [odo_free odo_free_props odo_free_alts] in Hof.
+      apply andb_prop in Hof. destruct Hof as [O1 O2]. rewrite walkv_props_cons in E.
+      destruct (walkv dcount r s off an) as [[pl an1]|e] eqn:Es; [|discriminate].
+      destruct (walkv_props dcount r rest (off + wsize pl) (wreg (js_anchor s) pl an1)) as [[[rl off1] an2]|e] eqn:Er; [|discriminate].
+      inversion E; subst. destruct (IHs O1 _ _ _ _ Es) as [H1 H2]. destruct (IHr O2 _ _ _ _ _ Er) as [G1 G2].
+      split; [cbn [ofree_props]; now rewrite H1, G1|]. intros H. apply G2. apply ofree_wreg; auto.
+    - intros _ st an als an' E. rewrite walkv_alts_nil in E. inversion E; subst. split; [reflexivity|auto].
+    - intros s IHs rest IHr Hof st an als an' E. cbn [odo_free odo_free_props odo_free_alts] in Hof.
+      apply andb_prop in Hof. destruct Hof as [O1 O2]. rewrite walkv_alts_cons in E.
+      destruct (walkv dcount r s st an) as [[l an1]|e] eqn:Es; [|discriminate].
+      destruct (walkv_alts dcount r rest st an1) as [[ls an2]|e] eqn:Er; [|discriminate].
+      inversion E; subst. destruct (IHs O1 _ _ _ _ Es) as [H1 H2]. destruct (IHr O2 _ _ _ _ Er) as [G1 G2].
+      split; [cbn [ofree_alts]; now rewrite H1, G1|auto].
+  Qed.
+
+  Definition ofree_nav (v : vnav) : Prop := ofree_loc (vn_loc v) = true /\ ofree_an (vn_an v).
+
+  Lemma ofree_find : forall ps k c, ofree_props ps = true -> wfind k ps = Some c -> ofree_loc c = true.
+  Proof.
+    induction ps as [|k0 l rest IH]; intros k c Hs Hf; [discriminate|]. cbn [ofree_props wfind] in *.
+    apply andb_prop in Hs. destruct Hs as [H1 H2]. destruct (key_eqb k k0); [inversion Hf; now subst|eauto].
+  Qed.
+
+  Lemma ofree_of : forall s v, odo_free s = true -> vnav_of dcount r s = Ok v -> ofree_nav v.
+  Proof.
+    intros s v Hof E. unfold vnav_of in E. destruct (walkv dcount r s 0 []) as [[l an]|e] eqn:Ew; [|discriminate]. inversion E; subst.
+    destruct (proj1 walkv_ofree s Hof _ _ _ _ Ew) as [H1 H2]. split; [exact H1|]. apply H2. intros k l' [].
+  Qed.
+
+  Lemma ofree_path : forall p v v', ofree_nav v -> vnav_path dcount r v p = Ok v' -> ofree_nav v'.
+  Proof.
+    induction p as [|s p IH]; intros v v' Hv E; cbn [vnav_path] in E; [inversion E; now subst|].
+    destruct (vnav_step dcount r v s) as [v1|e] eqn:Es; [|discriminate]. apply (IH v1); [|exact E].
+    destruct v as [l an]. destruct Hv as [Hl Ha]. cbn [vn_loc vn_an] in *. destruct s as [k|i]; cbn [vnav_step] in Es.
+    - unfold vnav_name in Es. cbn [vn_loc vn_an] in Es.
+      destruct l as [a st sz|st sz isz cnt it sch|st sz ps|st sz alts|st t]; try discriminate.
+      destruct (wfind k ps) as [c|] eqn:Ef; [|discriminate]. cbn [ofree_loc] in Hl.
+      pose proof (ofree_find _ _ _ Hl Ef) as Hc.
+      destruct c as [a' st' sz'|st' sz' isz' cnt' it' sch'|st' sz' ps'|st' sz' alts'|st' t'];
+        try (inversion Es; subst v1; split; assumption).
+      destruct (wlookup t' an) as [target|] eqn:El; [|discriminate]. inversion Es; subst v1.
+      split; [|exact Ha]. cbn [vn_loc]. destruct (wlookup_in _ _ _ El) as [k' Hin]. exact (Ha _ _ Hin).
+    - unfold vnav_index in Es. cbn [vn_loc vn_an] in Es.
+      destruct l as [a st sz|st sz isz cnt it sch|st sz ps|st sz alts|st t]; try discriminate.
+      destruct (cnt <=? i); [discriminate|]. cbn [ofree_loc] in Hl. apply andb_prop in Hl. destruct Hl as [Hsch _].
+      destruct (walkv dcount r sch (st + isz * i) []) as [[l' an']|e] eqn:Ew; [|discriminate]. inversion Es; subst v1.
+      destruct (proj1 walkv_ofree sch Hsch _ _ _ _ Ew) as [H1 H2]. split; [exact H1|]. apply H2. intros k l'' [].
+  Qed.
+End OF.
+
+(* ================================================================== what cobol_parser emits for a well-formed
+   record description (C01's wf, distinct ids) is cobol_like and free of OCCURS DEPENDING ON *)
+Require Import SR.Proofs.LayoutP.
+
+
+Lemma jkeys_keys_js :
+  (forall s, jkeys s = keys_js s) /\ (forall ps, jkeys_props ps = keys_props ps) /\ (forall alts, jkeys_alts alts = keys_alts alts).
+Proof.
+  apply js_props_alts_ind; intros; cbn [jkeys jkeys_props jkeys_alts keys_js keys_props keys_alts]; try congruence; try reflexivity.
+Qed.
+
+(* build_alt never yields a bare oneOf or $ref *)
+Definition plainish (s : js) : bool := match s with JOne _ _ | JRef _ => false | _ => true end.
+Lemma build_alt_plainish : forall x, plainish (build_alt x) = true.
+Proof. intros [i sz [|n|c] rd|i [|n|c] rd ks]; reflexivity. Qed.
+
+Lemma redef_props_plain_step : forall seen k p rest, plainish p = true ->
+  redef_props seen (PCons k p rest) = redef_ok p && redef_props seen rest.
+Proof. intros seen k p rest H. destruct p; try discriminate; reflexivity. Qed.
+
+Lemma anchor_build : forall x, elem_table x = false -> js_anchor (build_alt x) = Some (KName (item_id x)).
+Proof. intros [i sz [|n|c] rd|i [|n|c] rd ks] H; try discriminate; reflexivity. Qed.
+
+Lemma memk_true : forall k l, In k l -> memk k l = true.
+Proof.
+  intros k l H. unfold memk. apply existsb_exists. exists k. split; [exact H|]. destruct k; cbn; apply N.eqb_refl.
+Qed.
+
+Lemma redef_alts_red : forall u xs, (forall y, in_kids y xs -> redef_ok (build_alt y) = true) -> redef_alts (alts_red u xs) = true.
+Proof.
+  induction xs as [|x xs IH]; intros H; [reflexivity|]. cbn [alts_red].
+  assert (Hxs : redef_alts (alts_red u xs) = true) by (apply IH; intros y Hy; apply H; now right).
+  destruct (item_redef x) as [u'|]; [|exact Hxs]. destruct (N.eqb u u'); [|exact Hxs].
+  cbn [redef_alts]. rewrite (H x (or_introl eq_refl)). exact Hxs.
+Qed.
+
+Lemma alt_anchors_red : forall u xs y, in_kids y xs -> item_redef y = Some u -> elem_table y = false ->
+  In (KName (item_id y)) (alt_anchors (alts_red u xs)).
+Proof.
+  induction xs as [|x xs IH]; intros y Hy Er Het; [destruct Hy|]. cbn [alts_red]. destruct Hy as [->|Hy].
+  - rewrite Er, N.eqb_refl. cbn [alt_anchors]. rewrite (anchor_build _ Het). now left.
+  - specialize (IH y Hy Er Het). destruct (item_redef x) as [u'|]; [|exact IH]. destruct (N.eqb u u'); [|exact IH].
+    cbn [alt_anchors]. apply in_or_app. now right.
+Qed.
+
+Lemma redef_plain : forall tg ks seen, (forall y, in_kids y ks -> redef_ok (build_alt y) = true) ->
+  redef_props seen (plain (kid_alts tg ks)) = true.
+Proof.
+  induction ks as [|x xs IH]; intros seen H; [reflexivity|]. rewrite kid_alts_cons. cbn [plain].
+  rewrite redef_props_plain_step by apply build_alt_plainish. rewrite (H x (or_introl eq_refl)). cbn [andb].
+  apply IH. intros y Hy. apply H. now right.
+Qed.
+
+(* the children loop: every $ref placeholder names an alternative of an earlier REDEFINES-x entry *)
+Lemma redef_assemble : forall e ks seen bases,
+  unions_ok e bases ks = true ->
+  (forall y, in_kids y ks -> redef_ok (build_alt y) = true) ->
+  (forall y u, in_kids y ks -> item_redef y = Some u -> In u (map fst bases) -> In (KName (item_id y)) seen) ->
+  redef_props seen (assemble_d ks) = true.
+Proof.
+  induction ks as [|x xs IH]; intros seen bases Hu Hk Hinv; [reflexivity|].
+  cbn [unions_ok] in Hu. cbn [assemble_d].
+  assert (Hkxs : forall y, in_kids y xs -> redef_ok (build_alt y) = true) by (intros y Hy; apply Hk; now right).
+  destruct (item_redef x) as [u|] eqn:Er.
+  - apply andb_true_iff in Hu. destruct Hu as [Hu Hxs]. apply andb_true_iff in Hu. destruct Hu as [_ Hf].
+    destruct (find (fun p => N.eqb (fst p) u) bases) as [[u' ext]|] eqn:Ef; [|discriminate].
+    destruct (find_fst_In u bases _ Ef) as [Hin Heq]. cbn [fst] in *. subst u'.
+    cbn [redef_props]. rewrite (memk_true _ _ (Hinv x u (or_introl eq_refl) Er Hin)). cbn [andb].
+    apply (IH seen bases Hxs Hkxs). intros y u0 Hy. apply Hinv. now right.
+  - apply andb_true_iff in Hu. destruct Hu as [Hel Hxs].
+    destruct (existsb (N.eqb (item_id x)) (redef_targets xs)) eqn:Ex.
+    + rewrite orb_false_r in Hel. apply negb_true_iff in Hel.
+      cbn [redef_props redef_alts]. rewrite (Hk x (or_introl eq_refl)), (redef_alts_red _ _ Hkxs). cbn [andb].
+      set (seen' := alt_anchors (ACons (build_alt x) (alts_red (item_id x) xs)) ++ seen).
+      assert (Hx : In (KName (item_id x)) seen').
+      { unfold seen'. apply in_or_app. left. cbn [alt_anchors]. rewrite (anchor_build _ Hel). now left. }
+      rewrite (memk_true _ _ Hx). cbn [andb].
+      apply (IH seen' ((item_id x, extent e x) :: bases) Hxs Hkxs).
+      intros y u0 Hy Ery Hin. cbn [map fst] in Hin. destruct Hin as [<-|Hin].
+      * unfold seen'. apply in_or_app. left. cbn [alt_anchors]. apply in_or_app. right.
+        apply alt_anchors_red; [exact Hy|exact Ery|].
+        (* a redefiner is never an elementary table *)
+        clear - Hxs Hy Ery. revert Hxs. generalize ((item_id x, extent e x) :: bases). induction xs as [|z zs IHz]; intros bs Hu; [destruct Hy|].
+        cbn [unions_ok] in Hu. destruct Hy as [->|Hy].
+        -- rewrite Ery in Hu. apply andb_true_iff in Hu. destruct Hu as [Hu _]. apply andb_true_iff in Hu. destruct Hu as [Hu _].
+           now apply negb_true_iff in Hu.
+        -- destruct (item_redef z); apply andb_true_iff in Hu; destruct Hu as [_ Hu]; eapply IHz; eauto.
+      * unfold seen'. apply in_or_app. right. apply (Hinv y u0); [now right|exact Ery|exact Hin].
+    + rewrite redef_props_plain_step by apply build_alt_plainish. rewrite (Hk x (or_introl eq_refl)). cbn [andb].
+      apply (IH seen ((item_id x, extent e x) :: bases) Hxs Hkxs).
+      intros y u0 Hy Ery Hin. cbn [map fst] in Hin. destruct Hin as [<-|Hin].
+      * exfalso. pose proof (redef_targets_spec xs y (item_id x) Hy Ery) as Ht. apply existsb_eqb_In in Ht. congruence.
+      * apply (Hinv y u0); [now right|exact Ery|exact Hin].
+Qed.
+
+Lemma redef_ok_build : forall e,
+  (forall x, wf e x = true -> NoDup (ids x) -> redef_ok (build_alt x) = true) /\
+  (forall ks, wf_kids e ks = true -> NoDup (ids_kids ks) -> forall y, in_kids y ks -> redef_ok (build_alt y) = true).
+Proof.
+  intros e. apply item_items_ind.
+  - intros i sz oc rd Hw _. destruct oc as [|n|c]; [reflexivity|reflexivity|discriminate].
+  - intros i oc rd ks IH Hw Hnd. cbn [wf item_oc] in Hw.
+    apply andb_true_iff in Hw. destruct Hw as [Hoc Hw]. apply andb_true_iff in Hw. destruct Hw as [Hwk Hu].
+    cbn [ids] in Hnd. assert (Hndk : NoDup (ids_kids ks)) by (inversion Hnd; assumption).
+    specialize (IH Hwk Hndk).
+    destruct oc as [|n|c]; [| |discriminate].
+    + rewrite (build_group_once e) by assumption. cbn [redef_ok].
+      apply (redef_assemble e ks [] [] Hu IH). intros y u _ _ [].
+    + cbn [build_alt redef_ok]. apply redef_plain. exact IH.
+  - intros _ _ y [].
+  - intros x IHx xs IHxs Hw Hnd y Hy. cbn [wf_kids] in Hw. apply andb_true_iff in Hw. destruct Hw as [Hwx Hwxs].
+    cbn [ids_kids] in Hnd. destruct Hy as [->|Hy].
+    + apply IHx; [exact Hwx|apply NoDup_app_l in Hnd; exact Hnd].
+    + apply IHxs; [exact Hwxs|apply NoDup_app_r in Hnd; exact Hnd|exact Hy].
+Qed.
+
+
+Lemma K_redef : forall l i, In (KRedef i) (K l) <-> In i l.
+Proof.
+  intros l i. unfold K. rewrite in_app_iff, !in_map_iff. split.
+  - intros [(x & E & H)|(x & E & H)]; [discriminate|injection E as ->; exact H].
+  - intros H. right. exists i. split; [reflexivity|exact H].
+Qed.
+
+Lemma K_disj : forall a b k, NoDup (a ++ b) -> In k (K a) -> In k (K b) -> False.
+Proof.
+  intros a b [i|i] Hnd Ha Hb.
+  - apply K_name in Ha. apply K_name in Hb. exact (NoDup_app_disj _ _ i Hnd Ha Hb).
+  - apply K_redef in Ha. apply K_redef in Hb. exact (NoDup_app_disj _ _ i Hnd Ha Hb).
+Qed.
+
+Lemma nodup_app : forall {T} (a b : list T), NoDup a -> NoDup b -> (forall x, In x a -> In x b -> False) -> NoDup (a ++ b).
+Proof.
+  intros T a b Ha Hb Hd. induction Ha as [|x a Hx Ha IH]; [exact Hb|]. cbn [app]. constructor.
+  - intros Hin. apply in_app_or in Hin. destruct Hin as [Hin|Hin]; [contradiction|]. apply (Hd x); [now left|exact Hin].
+  - apply IH. intros y Hy. apply Hd. now right.
+Qed.
+
+Notation own y := (keys_js (build_alt y)).
+
+Lemma keys_assemble_redefiner : forall x xs u, item_redef x = Some u ->
+  keys_props (assemble_d (ICons x xs)) = keys_props (assemble_d xs).
+Proof. intros x xs u H. cbn [assemble_d]. rewrite H. reflexivity. Qed.
+Lemma keys_assemble_union : forall x xs, item_redef x = None -> existsb (N.eqb (item_id x)) (redef_targets xs) = true ->
+  keys_props (assemble_d (ICons x xs)) =
+  KRedef (item_id x) :: (own x ++ keys_alts (alts_red (item_id x) xs)) ++ keys_props (assemble_d xs).
+Proof. intros x xs H1 H2. cbn [assemble_d]. rewrite H1, H2. reflexivity. Qed.
+Lemma keys_assemble_plain : forall x xs, item_redef x = None -> existsb (N.eqb (item_id x)) (redef_targets xs) = false ->
+  keys_props (assemble_d (ICons x xs)) = own x ++ keys_props (assemble_d xs).
+Proof. intros x xs H1 H2. cbn [assemble_d]. rewrite H1, H2. reflexivity. Qed.
+
+(* a key among the alternatives contributed by the redefiners of u belongs to one of them *)
+Lemma alts_red_key : forall u xs k, In k (keys_alts (alts_red u xs)) ->
+  exists y, in_kids y xs /\ item_redef y = Some u /\ In k (own y).
+Proof.
+  induction xs as [|x xs IH]; intros k H; [destruct H|]. cbn [alts_red] in H.
+  destruct (item_redef x) as [u'|] eqn:Er.
+  - destruct (N.eqb u u') eqn:E.
+    + apply N.eqb_eq in E. subst u'. cbn [keys_alts] in H. apply in_app_or in H. destruct H as [H|H].
+      * exists x. repeat split; [now left|exact Er|exact H].
+      * destruct (IH k H) as [y [H1 [H2 H3]]]. exists y. repeat split; [now right|exact H2|exact H3].
+    + destruct (IH k H) as [y [H1 [H2 H3]]]. exists y. repeat split; [now right|exact H2|exact H3].
+  - destruct (IH k H) as [y [H1 [H2 H3]]]. exists y. repeat split; [now right|exact H2|exact H3].
+Qed.
+
+Lemma kids_share : forall xs y1 y2 i, in_kids y1 xs -> in_kids y2 xs -> In i (ids y1) -> In i (ids y2) ->
+  NoDup (ids_kids xs) -> y1 = y2.
+Proof.
+  induction xs as [|x xs IH]; intros y1 y2 i H1 H2 I1 I2 Hnd; [destruct H1|]. cbn [ids_kids] in Hnd.
+  destruct H1 as [->|H1], H2 as [->|H2].
+  - reflexivity.
+  - exfalso. apply (NoDup_app_disj _ _ i Hnd I1). eapply in_kids_ids_incl; eauto.
+  - exfalso. apply (NoDup_app_disj _ _ i Hnd I2). eapply in_kids_ids_incl; eauto.
+  - apply (IH y1 y2 i H1 H2 I1 I2). now apply NoDup_app_r in Hnd.
+Qed.
+
+Section ND.
+  Variable e : env.
+
+  Definition outer_free (B : list id) (k : key) (xs : items) : Prop :=
+    exists y, in_kids y xs /\ (forall u, item_redef y = Some u -> ~ In u B) /\ In k (K (ids y)).
+
+  (* a key of the flattened children loop belongs to a child that does not redefine an item outside the list *)
+  Lemma assemble_key : forall xs bases,
+    unions_ok e bases xs = true ->
+    (forall y, in_kids y xs -> incl (own y) (K (ids y))) ->
+    NoDup (kid_ids xs) ->
+    (forall i, In i (map fst bases) -> ~ In i (kid_ids xs)) ->
+    forall k, In k (keys_props (assemble_d xs)) -> outer_free (map fst bases) k xs.
+  Proof.
+    induction xs as [|x xs IH]; intros bases Hu Hk Hnd HB k H; [destruct H|].
+    cbn [unions_ok] in Hu. cbn [kid_ids] in Hnd, HB. inversion Hnd as [|? ? Hxn Hndxs]; subst.
+    assert (Hkxs : forall y, in_kids y xs -> incl (own y) (K (ids y))) by (intros y Hy; apply Hk; now right).
+    assert (lift : forall B0, outer_free B0 k xs -> (forall i, In i (map fst bases) -> In i B0) -> outer_free (map fst bases) k (ICons x xs)).
+    { intros B0 [y [H1 [H2 H3]]] Hsub. exists y. repeat split; [now right| |exact H3]. intros u Hr Hin. apply (H2 u Hr). auto. }
+    assert (HBxs : forall i, In i (map fst bases) -> ~ In i (kid_ids xs)) by (intros i Hi Hin; apply (HB i Hi); now right).
+    destruct (item_redef x) as [u|] eqn:Er.
+    - apply andb_true_iff in Hu. destruct Hu as [_ Hxs]. rewrite (keys_assemble_redefiner x xs u Er) in H.
+      apply (lift (map fst bases)); [|auto]. apply IH; auto.
+    - apply andb_true_iff in Hu. destruct Hu as [_ Hxs].
+      assert (Hx : In k (K (ids x)) -> outer_free (map fst bases) k (ICons x xs)).
+      { intros Hin. exists x. repeat split; [now left| |exact Hin]. intros u Hr. congruence. }
+      assert (Hrec : In k (keys_props (assemble_d xs)) -> outer_free (map fst bases) k (ICons x xs)).
+      { intros H'. apply (lift (map fst ((item_id x, extent e x) :: bases))); [|intros i Hi; now right].
+        apply IH; auto. intros i Hi. cbn [map fst] in Hi. destruct Hi as [<-|Hi]; [exact Hxn|now apply HBxs]. }
+      destruct (existsb (N.eqb (item_id x)) (redef_targets xs)) eqn:Ex.
+      + rewrite (keys_assemble_union x xs Er Ex) in H. destruct H as [<-|H].
+        * apply Hx. apply K_redef. apply item_id_in_ids.
+        * apply in_app_or in H. destruct H as [H|H]; [|now apply Hrec].
+          apply in_app_or in H. destruct H as [H|H]; [apply Hx; apply (Hk x); [now left|exact H]|].
+          destruct (alts_red_key _ _ _ H) as [y [H1 [H2 H3]]]. exists y. repeat split; [now right| |apply (Hkxs y H1); exact H3].
+          intros u Hr. rewrite H2 in Hr. injection Hr as <-. intros Hin. apply (HB _ Hin). now left.
+      + rewrite (keys_assemble_plain x xs Er Ex) in H. apply in_app_or in H. destruct H as [H|H]; [|now apply Hrec].
+        apply Hx. apply (Hk x); [now left|exact H].
+  Qed.
+
+  Lemma nodup_alts_red : forall u xs,
+    (forall y, in_kids y xs -> NoDup (own y)) -> (forall y, in_kids y xs -> incl (own y) (K (ids y))) ->
+    NoDup (ids_kids xs) -> NoDup (keys_alts (alts_red u xs)).
+  Proof.
+    induction xs as [|x xs IH]; intros Hn Hk Hnd; [constructor|]. cbn [alts_red ids_kids] in *.
+    assert (Hxs : NoDup (keys_alts (alts_red u xs))).
+    { apply IH; [intros y Hy; apply Hn; now right|intros y Hy; apply Hk; now right|now apply NoDup_app_r in Hnd]. }
+    destruct (item_redef x) as [u'|]; [|exact Hxs]. destruct (N.eqb u u'); [|exact Hxs].
+    cbn [keys_alts]. apply nodup_app; [apply Hn; now left|exact Hxs|].
+    intros k H1 H2. apply (K_disj _ _ k Hnd); [apply (Hk x); [now left|exact H1]|].
+    apply (keys_alts_red u xs); [intros y Hy; apply Hk; now right|exact H2].
+  Qed.
+
+  Lemma nodup_plain : forall tg xs,
+    (forall y, in_kids y xs -> NoDup (own y)) -> (forall y, in_kids y xs -> incl (own y) (K (ids y))) ->
+    NoDup (ids_kids xs) -> NoDup (keys_props (plain (kid_alts tg xs))).
+  Proof.
+    induction xs as [|x xs IH]; intros Hn Hk Hnd; [constructor|]. rewrite kid_alts_cons. cbn [plain keys_props ids_kids] in *.
+    apply nodup_app; [apply Hn; now left| |].
+    - apply IH; [intros y Hy; apply Hn; now right|intros y Hy; apply Hk; now right|now apply NoDup_app_r in Hnd].
+    - intros k H1 H2. apply (K_disj _ _ k Hnd); [apply (Hk x); [now left|exact H1]|].
+      apply (keys_plain tg xs); [intros y Hy; apply Hk; now right|exact H2].
+  Qed.
+
+  Lemma nodup_assemble : forall xs bases,
+    unions_ok e bases xs = true ->
+    (forall y, in_kids y xs -> NoDup (own y)) ->
+    (forall y, in_kids y xs -> incl (own y) (K (ids y))) ->
+    (forall y, in_kids y xs -> ~ In (KRedef (item_id y)) (own y)) ->
+    NoDup (ids_kids xs) ->
+    (forall i, In i (map fst bases) -> ~ In i (kid_ids xs)) ->
+    NoDup (keys_props (assemble_d xs)).
+  Proof.
+    induction xs as [|x xs IH]; intros bases Hu Hn Hk Hr Hnd HB; [constructor|].
+    cbn [unions_ok] in Hu. pose proof (NoDup_ids_kid_ids _ Hnd) as Hndk. cbn [kid_ids] in Hndk, HB.
+    inversion Hndk as [|? ? Hxn Hndkxs]; subst. cbn [ids_kids] in Hnd.
+    assert (Hnxs : forall y, in_kids y xs -> NoDup (own y)) by (intros y Hy; apply Hn; now right).
+    assert (Hkxs : forall y, in_kids y xs -> incl (own y) (K (ids y))) by (intros y Hy; apply Hk; now right).
+    assert (Hrxs : forall y, in_kids y xs -> ~ In (KRedef (item_id y)) (own y)) by (intros y Hy; apply Hr; now right).
+    assert (Hndxs : NoDup (ids_kids xs)) by (now apply NoDup_app_r in Hnd).
+    assert (HBxs : forall i, In i (map fst bases) -> ~ In i (kid_ids xs)) by (intros i Hi Hin; apply (HB i Hi); now right).
+    assert (Hkx : incl (own x) (K (ids x))) by (apply Hk; now left).
+    assert (HAD : incl (keys_props (assemble_d xs)) (K (ids_kids xs))) by (apply keys_assemble_d; exact Hkxs).
+    destruct (item_redef x) as [u|] eqn:Er.
+    - apply andb_true_iff in Hu. destruct Hu as [_ Hxs]. rewrite (keys_assemble_redefiner x xs u Er). apply (IH bases); auto.
+    - apply andb_true_iff in Hu. destruct Hu as [_ Hxs].
+      assert (HB' : forall i, In i (map fst ((item_id x, extent e x) :: bases)) -> ~ In i (kid_ids xs)).
+      { intros i Hi. cbn [map fst] in Hi. destruct Hi as [<-|Hi]; [exact Hxn|now apply HBxs]. }
+      assert (Hrest : NoDup (keys_props (assemble_d xs))) by (apply (IH ((item_id x, extent e x) :: bases)); auto).
+      assert (Hdx : forall k, In k (own x) -> In k (keys_props (assemble_d xs)) -> False).
+      { intros k H1 H2. apply (K_disj _ _ k Hnd); [apply Hkx, H1|apply HAD, H2]. }
+      destruct (existsb (N.eqb (item_id x)) (redef_targets xs)) eqn:Ex.
+      + rewrite (keys_assemble_union x xs Er Ex).
+        assert (HRA : incl (keys_alts (alts_red (item_id x) xs)) (K (ids_kids xs))) by (apply keys_alts_red; exact Hkxs).
+        assert (Hxid : ~ In (item_id x) (ids_kids xs)).
+        { intros Hin. exact (NoDup_app_disj _ _ _ Hnd (item_id_in_ids x) Hin). }
+        constructor.
+        * intros Hin. apply in_app_or in Hin. destruct Hin as [Hin|Hin].
+          -- apply in_app_or in Hin. destruct Hin as [Hin|Hin]; [apply (Hr x); [now left|exact Hin]|].
+             apply HRA in Hin. apply K_redef in Hin. contradiction.
+          -- apply HAD in Hin. apply K_redef in Hin. contradiction.
+        * apply nodup_app; [|exact Hrest|].
+          -- apply nodup_app; [apply Hn; now left|apply nodup_alts_red; auto|].
+             intros k H1 H2. apply (K_disj _ _ k Hnd); [apply Hkx, H1|apply HRA, H2].
+          -- intros k H1 H2. apply in_app_or in H1. destruct H1 as [H1|H1]; [exact (Hdx k H1 H2)|].
+             destruct (alts_red_key _ _ _ H1) as [y1 [A1 [A2 A3]]].
+             destruct (assemble_key xs ((item_id x, extent e x) :: bases) Hxs Hkxs Hndkxs HB' k H2) as [y2 [B1 [B2 B3]]].
+             apply (Hkxs y1 A1) in A3.
+             assert (Hsame : y1 = y2).
+             { destruct k as [i|i].
+               - apply K_name in A3. apply K_name in B3. exact (kids_share xs y1 y2 i A1 B1 A3 B3 Hndxs).
+               - apply K_redef in A3. apply K_redef in B3. exact (kids_share xs y1 y2 i A1 B1 A3 B3 Hndxs). }
+             subst y2. apply (B2 _ A2). now left.
+      + rewrite (keys_assemble_plain x xs Er Ex). apply nodup_app; [apply Hn; now left|exact Hrest|exact Hdx].
+  Qed.
+
+  (* KRedef i is registered by the parent of i, never inside the schema of i itself *)
+  Lemma no_own_redef : forall x, wf e x = true -> NoDup (ids x) -> ~ In (KRedef (item_id x)) (own x).
+  Proof.
+    intros x Hw Hnd. destruct x as [i sz oc rd|i oc rd ks].
+    - destruct oc as [|n|c]; cbn; intuition discriminate.
+    - cbn [wf item_oc] in Hw. apply andb_true_iff in Hw. destruct Hw as [Hoc Hw]. apply andb_true_iff in Hw. destruct Hw as [Hwk Hu].
+      cbn [ids] in Hnd. inversion Hnd as [|? ? Hi Hndk]; subst.
+      assert (Hkids : forall y, in_kids y ks -> incl (own y) (K (ids y))) by (apply (proj2 (keys_build e)); assumption).
+      destruct oc as [|n|c]; [| |discriminate]; cbn [item_id].
+      + rewrite (build_group_once e) by assumption. cbn [keys_js js_anchor opt_list app]. intros [H|H]; [discriminate|].
+        apply (keys_assemble_d ks Hkids) in H. apply K_redef in H. contradiction.
+      + cbn [build_alt keys_js js_anchor opt_list app]. intros [H|H]; [discriminate|].
+        apply (keys_plain [] ks Hkids) in H. apply K_redef in H. contradiction.
+  Qed.
+
+  Lemma nodup_build :
+    (forall x, wf e x = true -> NoDup (ids x) -> NoDup (own x)) /\
+    (forall ks, wf_kids e ks = true -> NoDup (ids_kids ks) -> forall y, in_kids y ks -> NoDup (own y)).
+  Proof.
+    apply item_items_ind.
+    - intros i sz oc rd Hw _. destruct oc as [|n|c]; [| |discriminate]; cbn; repeat constructor; intuition.
+    - intros i oc rd ks IH Hw Hnd. pose proof Hw as Hw0. cbn [wf item_oc] in Hw.
+      apply andb_true_iff in Hw. destruct Hw as [Hoc Hw]. apply andb_true_iff in Hw. destruct Hw as [Hwk Hu].
+      cbn [ids] in Hnd. inversion Hnd as [|? ? Hi Hndk]; subst. specialize (IH Hwk Hndk).
+      assert (Hkids : forall y, in_kids y ks -> incl (own y) (K (ids y))) by (apply (proj2 (keys_build e)); assumption).
+      destruct oc as [|n|c]; [| |discriminate].
+      + rewrite (build_group_once e) by assumption. cbn [keys_js js_anchor opt_list app]. constructor.
+        * intros H. apply (keys_assemble_d ks Hkids) in H. apply K_name in H. contradiction.
+        * apply (nodup_assemble ks []); auto.
+          intros y Hy. apply no_own_redef; [eapply wf_kids_in; eauto|eapply NoDup_ids_kid; eauto].
+      + cbn [build_alt keys_js js_anchor opt_list app]. constructor.
+        * intros H. apply (keys_plain [] ks Hkids) in H. apply K_name in H. contradiction.
+        * apply nodup_plain; auto.
+    - intros _ _ y [].
+    - intros x IHx xs IHxs Hw Hnd y Hy. cbn [wf_kids] in Hw. apply andb_true_iff in Hw. destruct Hw as [Hwx Hwxs].
+      cbn [ids_kids] in Hnd. destruct Hy as [->|Hy].
+      + apply IHx; [exact Hwx|apply NoDup_app_l in Hnd; exact Hnd].
+      + apply IHxs; [exact Hwxs|apply NoDup_app_r in Hnd; exact Hnd|exact Hy].
+  Qed.
+End ND.
+
+Lemma nodupk_of_NoDup : forall l, NoDup l -> nodupk l = true.
+Proof.
+  induction l as [|k t IH]; intros H; [reflexivity|]. inversion H; subst. cbn [nodupk]. rewrite IH by assumption.
+  rewrite andb_true_r. apply negb_true_iff. destruct (memk k t) eqn:E; [|reflexivity].
+  unfold memk in E. apply existsb_exists in E. destruct E as [x [Hx Ex]].
+  assert (k = x) by (destruct k, x; cbn in Ex; try discriminate; apply N.eqb_eq in Ex; now subst). subst. contradiction.
+Qed.
+
+(* what cobol_parser emits for a well-formed record description is cobol_like *)
+Theorem cobol_like_build : forall e t, wf e t = true -> NoDup (ids t) -> cobol_like (build t) = true.
+Proof.
+  intros e t Hw Hnd. unfold cobol_like, build, uniq_keys. rewrite (proj1 (redef_ok_build e) t Hw Hnd). cbn [andb].
+  apply nodupk_of_NoDup. rewrite (proj1 jkeys_keys_js). exact (proj1 (nodup_build e) t Hw Hnd).
+Qed.
+
+
+Lemma odo_free_alts_red : forall u xs, (forall y, in_kids y xs -> odo_free (build_alt y) = true) -> odo_free_alts (alts_red u xs) = true.
+Proof.
+  induction xs as [|x xs IH]; intros H; [reflexivity|]. cbn [alts_red].
+  assert (Hxs : odo_free_alts (alts_red u xs) = true) by (apply IH; intros y Hy; apply H; now right).
+  destruct (item_redef x) as [u'|]; [|exact Hxs]. destruct (N.eqb u u'); [|exact Hxs].
+  cbn [odo_free_alts]. now rewrite (H x (or_introl eq_refl)).
+Qed.
+
+Lemma odo_free_plain : forall tg ks, (forall y, in_kids y ks -> odo_free (build_alt y) = true) -> odo_free_props (plain (kid_alts tg ks)) = true.
+Proof.
+  induction ks as [|x xs IH]; intros H; [reflexivity|]. rewrite kid_alts_cons. cbn [plain odo_free_props].
+  rewrite (H x (or_introl eq_refl)). apply IH. intros y Hy. apply H. now right.
+Qed.
+
+Lemma odo_free_assemble : forall ks, (forall y, in_kids y ks -> odo_free (build_alt y) = true) -> odo_free_props (assemble_d ks) = true.
+Proof.
+  induction ks as [|x xs IH]; intros H; [reflexivity|].
+  assert (Hxs : odo_free_props (assemble_d xs) = true) by (apply IH; intros y Hy; apply H; now right).
+  cbn [assemble_d]. destruct (item_redef x) as [u|].
+  - cbn [odo_free_props odo_free]. exact Hxs.
+  - destruct (existsb (N.eqb (item_id x)) (redef_targets xs)).
+    + cbn [odo_free_props odo_free odo_free_alts]. rewrite (H x (or_introl eq_refl)), odo_free_alts_red; [exact Hxs|].
+      intros y Hy. apply H. now right.
+    + cbn [odo_free_props]. now rewrite (H x (or_introl eq_refl)).
+Qed.
+
+Lemma odo_free_build : forall e,
+  (forall x, wf e x = true -> NoDup (ids x) -> odo_free (build_alt x) = true) /\
+  (forall ks, wf_kids e ks = true -> NoDup (ids_kids ks) -> forall y, in_kids y ks -> odo_free (build_alt y) = true).
+Proof.
+  intros e. apply item_items_ind.
+  - intros i sz oc rd Hw _. destruct oc as [|n|c]; [reflexivity|reflexivity|discriminate].
+  - intros i oc rd ks IH Hw Hnd. cbn [wf item_oc] in Hw.
+    apply andb_true_iff in Hw. destruct Hw as [Hoc Hw]. apply andb_true_iff in Hw. destruct Hw as [Hwk Hu].
+    cbn [ids] in Hnd. assert (Hndk : NoDup (ids_kids ks)) by (inversion Hnd; assumption).
+    specialize (IH Hwk Hndk).
+    destruct oc as [|n|c]; [| |discriminate].
+    + rewrite (build_group_once e) by assumption. cbn [odo_free]. now apply odo_free_assemble.
+    + cbn [build_alt odo_free]. now apply odo_free_plain.
+  - intros _ _ y [].
+  - intros x IHx xs IHxs Hw Hnd y Hy. cbn [wf_kids] in Hw. apply andb_true_iff in Hw. destruct Hw as [Hwx Hwxs].
+    cbn [ids_kids] in Hnd. destruct Hy as [->|Hy].
+    + apply IHx; [exact Hwx|apply NoDup_app_l in Hnd; exact Hnd].
+    + apply IHxs; [exact Hwxs|apply NoDup_app_r in Hnd; exact Hnd|exact Hy].
+Qed.
+
+Section Cobol.
+  Variable B : Type.
+  Variable dcount : list B -> nat.
+  Variable A : Type.
+  Variable dec : option key -> list B -> res A.
+  Variable r : list B.
+  Variable e : env.
+
+  Lemma J_cobol : forall t p v0 v, LayoutP.wf e t = true -> NoDup (ids t) ->
+    vnav_of dcount r (build t) = Ok v0 -> vnav_path dcount r v0 p = Ok v -> J B dcount r v /\ ofree_nav v.
+  Proof.
+    intros t p v0 v Hw Hnd H0 Hp. split.
+    - exact (J_path B dcount r p v0 v (J_of B dcount r _ v0 (cobol_like_build e t Hw Hnd) H0) Hp).
+    - exact (ofree_path B dcount r p v0 v (ofree_of B dcount r _ v0 (proj1 (odo_free_build e) t Hw Hnd) H0) Hp).
+  Qed.
+
+  Theorem commute_index_cobol : forall t p v0 v st sz isz cnt it sch (xs : list (pv A)) i,
+    LayoutP.wf e t = true -> NoDup (ids t) ->
+    vnav_of dcount r (build t) = Ok v0 -> vnav_path dcount r v0 p = Ok v ->
+    vn_loc v = WArr st sz isz cnt it sch ->
+    vnav_value r dec v = Some (Ok (PList xs)) -> i < cnt ->
+    exists v' x, vnav_index dcount r v i = Ok v' /\ nth_error xs i = Some x /\ vnav_value r dec v' = Some (Ok x).
+  Proof.
+    intros t p v0 v st sz isz cnt it sch xs i Hw Hnd H0 Hp Hl.
+    destruct (J_cobol t p v0 v Hw Hnd H0 Hp) as [Hj [Ho _]].
+    apply (commute_index_J B dcount A dec r v st sz isz cnt it sch xs i Hj Hl).
+    rewrite Hl in Ho. cbn [ofree_loc] in Ho. apply andb_prop in Ho. exact (proj1 Ho).
+  Qed.
+
+  Theorem raw_name_cobol : forall t p v0 v v' k,
+    LayoutP.wf e t = true -> NoDup (ids t) ->
+    vnav_of dcount r (build t) = Ok v0 -> vnav_path dcount r v0 p = Ok v -> vnav_name v k = Ok v' ->
+    wstart (vn_loc v) <= wstart (vn_loc v') /\ wend (vn_loc v') <= wend (vn_loc v) /\
+    vnav_raw r v' = slice (vnav_raw r v) (wstart (vn_loc v') - wstart (vn_loc v)) (wend (vn_loc v') - wstart (vn_loc v)).
+  Proof.
+    intros t p v0 v v' k Hw Hnd H0 Hp Hn.
+    destruct (name_inside_all B dcount r v k v' (proj1 (J_cobol t p v0 v Hw Hnd H0 Hp)) Hn) as [H1 H2].
+    repeat split; try assumption. now apply raw_slice.
+  Qed.
+
+  Theorem raw_index_cobol : forall t p v0 v v' st sz isz cnt it sch i,
+    LayoutP.wf e t = true -> NoDup (ids t) ->
+    vnav_of dcount r (build t) = Ok v0 -> vnav_path dcount r v0 p = Ok v ->
+    vn_loc v = WArr st sz isz cnt it sch -> vnav_index dcount r v i = Ok v' ->
+    wstart (vn_loc v') = st + isz * i /\ wsize (vn_loc v') = isz /\
+    vnav_raw r v' = slice (vnav_raw r v) (wstart (vn_loc v') - wstart (vn_loc v)) (wend (vn_loc v') - wstart (vn_loc v)).
+  Proof.
+    intros t p v0 v v' st sz isz cnt it sch i Hw Hnd H0 Hp Hl Hi.
+    destruct (J_cobol t p v0 v Hw Hnd H0 Hp) as [[Hinv _] [Ho _]].
+    rewrite Hl in Ho. cbn [ofree_loc] in Ho. apply andb_prop in Ho.
+    destruct (index_inside B dcount r v st sz isz cnt it sch i v' Hinv Hl (proj1 Ho) Hi) as [H1 [H2 [H3 H4]]].
+    repeat split; try assumption. now apply raw_slice.
+  Qed.
+
+  Theorem foot_inside_cobol : forall t p v0 v,
+    LayoutP.wf e t = true -> NoDup (ids t) ->
+    vnav_of dcount r (build t) = Ok v0 -> vnav_path dcount r v0 p = Ok v -> foot_inside v = true.
+  Proof.
+    intros t p v0 v Hw Hnd H0 Hp. exact (foot_inside_J B dcount r v (proj1 (J_cobol t p v0 v Hw Hnd H0 Hp))).
+  Qed.
+
+  Theorem lazy_cobol : forall (r' : list B) t p v0 v,
+    LayoutP.wf e t = true -> NoDup (ids t) ->
+    vnav_of dcount r (build t) = Ok v0 -> vnav_path dcount r v0 p = Ok v ->
+    vnav_raw r v = vnav_raw r' v ->
+    vnav_value r dec v = vnav_value r' dec v.
+  Proof.
+    intros r' t p v0 v Hw Hnd H0 Hp. apply (lazy_value B A dec). exact (foot_inside_cobol t p v0 v Hw Hnd H0 Hp).
+  Qed.
+End Cobol.
